@@ -1,6 +1,614 @@
-"""C17 — reading MPS (DESIGN §5 C17)."""
+"""C17 — reading MPS (DESIGN §5 C17).
+
+Written against the normal form (VIEW = 'norm': extracted helpers inlined, iterator chains as explicit loops).
+Tables of the format (RANGES signs, bound defaults, row normalisation, finish()) are decided on VALUES with a
+small symbolic path evaluator (class Sx below) under an enumerated case oracle, the keyword tables and the
+per-keyword effects on the CFG regions of each `x == "KEYWORD"` test."""
+import json, math
 from .common import *
 
+VIEW = 'norm'
+
+# =====================================================================================================
+# Symbolic paths ("Sx"): a small path-sensitive evaluator over the mini-MIR.  Nothing is executed: the
+# statements of ONE function are interpreted over symbolic values along every acyclic path (every block
+# at most `max_visits` times), with an oracle that fixes the outcome of the case distinctions a rule
+# enumerates ("row is in eq", "l has no entry", "r < 0", ...).  A rule then states its table on the
+# *values* that reach a sink (a table insert, a returned aggregate), not on the shape of the code:
+# hoisted lets, guard arms, `if` vs `match`, `x.remove(k)` used as the test, extracted helpers (normal
+# form) and closures of Option adaptors all evaluate to the same thing.
+#
+# Symbolic values (hashable tuples):
+#   ('const', text) ('param', i) ('undef', local) ('field', base, name, of) ('index', base, ix)
+#   ('agg', adt, fields, vals) ('closure', name, captured) ('ref', v) ('lref', local, projs)
+#   ('discr', v) ('bin', op, a, b) ('un', op, a) ('cast', to, a) ('call', item, name, args, bb, nth) ('upd', old, f, v)
+# The payload of an Option/Result/ControlFlow value v is always ('field', v', '0', 'payload') with v' the
+# value below the payload-preserving adaptors (`ok_or`, `?`, `copied`, ...).
+# =====================================================================================================
+class SxLimit(Exception):
+    pass
+
+
+GOODV = ('Some', 'Ok', 'Continue'); BADV = ('None', 'Err', 'Break')
+# adaptors that keep the payload and the good/bad side of their receiver (one comment per entry)
+SX_LOOK = {
+    'ok_or': 'R',            # Some(x) -> Ok(x), None -> Err(e)
+    'ok_or_else': 'R',       # the same with a lazily built error
+    'context': 'R',          # anyhow: None/Err -> Err(msg)
+    'with_context': 'R',     # anyhow, lazy
+    'map_err': 'R',          # Ok(x) stays Ok(x)
+    'branch': 'C',           # the `?` operator: Ok/Some -> Continue, Err/None -> Break
+    'copied': 'O', 'cloned': 'O', 'as_ref': 'O', 'as_mut': 'O', 'as_deref': 'O', 'inspect': 'O',   # same variant
+}
+# calls whose result is (a copy of / a reference to) their first argument
+SX_IDENT = {'clone', 'cloned', 'copied', 'as_ref', 'as_mut', 'deref', 'deref_mut', 'borrow', 'borrow_mut', 'to_owned', 'as_deref',
+            'as_deref_mut', 'into', 'from', 'must_use', 'as_slice', 'as_str', 'into_owned', 'as_mut_slice', 'black_box', 'identity'}
+SX_OPT_RE = re.compile(r'^std::(option::Option|result::Result)::<.*>::(\w+)(::<.*>)?$')
+
+
+def _hp(p):
+    """hashable projection"""
+    if isinstance(p, dict):
+        if 'f' in p: return ('f', p['f'], p.get('of', ''))
+        if 'dc' in p: return ('dc', p['dc'])
+        if 'ix' in p: return ('ix', p['ix'])
+        return ('c', json.dumps(p, sort_keys=True))
+    return p
+
+
+def _up(p):
+    if isinstance(p, tuple):
+        if p[0] == 'f': return {'f': p[1], 'of': p[2]}
+        if p[0] == 'dc': return {'dc': p[1]}
+        if p[0] == 'ix': return {'ix': p[1]}
+        return json.loads(p[1])
+    return p
+
+
+def sx_walk(v):
+    """all sub-values of a symbolic value"""
+    stack = [v]
+    while stack:
+        x = stack.pop()
+        if not isinstance(x, tuple) or not x or not isinstance(x[0], str): continue
+        yield x
+        k = x[0]
+        if k in ('agg', 'call'): stack.extend(x[3])
+        elif k == 'closure': stack.extend(x[2])
+        elif k in ('const', 'param', 'undef', 'lref'): pass
+        else: stack.extend(y for y in x[1:] if isinstance(y, tuple))
+
+
+def sx_strip(v):
+    """look through references"""
+    while isinstance(v, tuple) and v and v[0] == 'ref': v = v[1]
+    return v
+
+
+def sx_mentions(path, v, target, depth=3):
+    """does value `v` (looking through references to locals, with their value at the end of `path`) contain `target`"""
+    for x in sx_walk(v):
+        if x == target: return True
+        if x[0] == 'lref' and depth > 0 and x[1] in path.env and sx_mentions(path, path.env[x[1]], target, depth - 1): return True
+    return False
+
+
+def sx_calls(v, item=None):
+    return [x for x in sx_walk(v) if x[0] == 'call' and (item is None or x[1] == item)]
+
+
+def sx_fields(v):
+    """(of, name) of every field projection inside a value (incl. the path of a local reference)"""
+    out = []
+    for x in sx_walk(v):
+        if x[0] == 'field': out.append((x[3], x[2]))
+        elif x[0] == 'lref': out += [(p[2], p[1]) for p in x[2] if isinstance(p, tuple) and p[0] == 'f']
+    return out
+
+
+def sx_str(v, depth=5):
+    if not isinstance(v, tuple) or not v: return str(v)
+    if depth <= 0: return '…'
+    k = v[0]
+    if k == 'const': return v[1][-28:]
+    if k == 'param': return 'arg%d' % v[1]
+    if k == 'undef': return '_%d' % v[1]
+    if k == 'field': return '%s.%s' % (sx_str(v[1], depth - 1), v[2])
+    if k == 'index': return '%s[%s]' % (sx_str(v[1], depth - 1), sx_str(v[2], depth - 1))
+    if k == 'agg': return '%s(%s)' % (v[1].split('::')[-1], ', '.join(sx_str(x, depth - 1) for x in v[3]))
+    if k == 'ref': return '&' + sx_str(v[1], depth)
+    if k == 'lref': return '&mut _%d%s' % (v[1], ''.join('.' + p[1] for p in v[2] if isinstance(p, tuple) and p[0] == 'f'))
+    if k == 'bin': return '(%s %s %s)' % (sx_str(v[2], depth - 1), v[1], sx_str(v[3], depth - 1))
+    if k == 'un': return '%s(%s)' % (v[1], sx_str(v[2], depth - 1))
+    if k == 'cast': return sx_str(v[2], depth)
+    if k == 'discr': return 'discr(%s)' % sx_str(v[1], depth - 1)
+    if k == 'call': return '%s(%s)' % (v[1], ', '.join(sx_str(x, depth - 1) for x in v[3]))
+    if k == 'closure': return 'closure'
+    return k
+
+
+class SxOracle:
+    """case oracle: the defaults know nothing"""
+    def variant(self, sx, v, st): return None        # 'Some' / 'None' / 'Ok' / ... of an opaque value
+    def num(self, sx, v, st): return None            # concrete number of a symbolic leaf
+    def call(self, sx, node, st): return None        # value of a call (e.g. const bool of `set.contains(k)`)
+
+
+class SxState:
+    __slots__ = ('bb', 'env', 'events', 'assume', 'visits', 'moved')
+
+    def __init__(self, bb, env, events, assume, visits):
+        self.bb = bb; self.env = env; self.events = events; self.assume = assume; self.visits = visits; self.moved = False
+
+    def fork(self):
+        s = SxState(self.bb, dict(self.env), list(self.events), dict(self.assume), dict(self.visits)); s.moved = self.moved
+        return s
+
+
+class SxPath:
+    __slots__ = ('env', 'events', 'assume', 'end', 'bb', 'value', 'visits')
+
+    def __init__(self, st, end, bb, value):
+        self.env = st.env; self.events = st.events; self.assume = st.assume; self.end = end; self.bb = bb; self.value = value; self.visits = st.visits
+
+    def calls(self, item=None):
+        return [e for e in self.events if e[0] == 'call' and (item is None or e[1] == item or (not isinstance(item, str) and e[1] in item))]
+
+
+class Sx:
+    def __init__(self, ctx, body, oracle=None, max_visits=2, max_paths=1500, max_steps=400000, depth=0):
+        self.ctx = ctx; self.F = ctx.F; self.b = body; self.o = oracle or SxOracle()
+        self.max_visits = max_visits; self.max_paths = max_paths; self.max_steps = max_steps; self.depth = depth
+
+    # ---------------------------------------------------------------- values
+    def const(self, o):
+        v = o['v']
+        m = re.search(r'::promoted\[(\d+)\]$', v)
+        if m and self.depth < 3:
+            pb = self.F.bodies.get(v) or self.F.bodies.get('%s::promoted[%s]' % (self.b.name, m.group(1)))
+            if pb is not None and pb is not self.b:
+                try:
+                    rets = [p for p in Sx(self.ctx, pb, None, depth=self.depth + 1).run() if p.end == 'return']
+                except SxLimit:
+                    rets = []
+                if len(rets) == 1 and rets[0].value is not None: return rets[0].value
+        return ('const', v)
+
+    def op(self, o, st):
+        if o['k'] == 'const': return self.const(o)
+        if o['k'] in ('copy', 'move'): return self.rd(o['pl'], st)
+        return ('undef', -1)
+
+    def local(self, l, st):
+        v = st.env.get(l)
+        if v is None: v = ('param', l) if 1 <= l <= self.b.argc else ('undef', l)
+        return v
+
+    def rd(self, pl, st):
+        v = self.local(pl['l'], st)
+        for p in pl['p']: v = self.proj(v, p, st)
+        return v
+
+    def proj(self, v, p, st):
+        if p == '*': return self.deref(v, st)
+        if isinstance(p, dict):
+            if 'f' in p: return self.field(v, p['f'], p.get('of', ''))
+            if 'dc' in p: return v                               # the variant is repeated in the `of` of the field that follows
+            if 'ix' in p: return ('index', v, self.local(p['ix'], st))
+        return ('index', v, ('const', json.dumps(p, sort_keys=True)))
+
+    def deref(self, v, st):
+        if v[0] == 'ref': return v[1]
+        if v[0] == 'lref': return self.rd({'l': v[1], 'p': [_up(p) for p in v[2]]}, st)
+        return v
+
+    def field(self, v, f, of):
+        last = of.split('::')[-1]
+        if v[0] == 'agg':
+            fl, vals = v[2], v[3]
+            if f in fl: return vals[fl.index(f)]
+            if not fl and f.isdigit() and int(f) < len(vals): return vals[int(f)]
+        if v[0] == 'upd':
+            return v[3] if v[2] == f else self.field(v[1], f, of)
+        if f == '0' and last in GOODV:
+            # payload: canonical form below the payload-preserving adaptors
+            while v[0] == 'call' and v[1] in SX_LOOK and v[3]: v = sx_strip(v[3][0])
+            return ('field', v, '0', 'payload')
+        return ('field', v, f, of)
+
+    def payload(self, v):
+        v = sx_strip(v)
+        return self.field(v, '0', 'Some')
+
+    # ---------------------------------------------------------------- stores
+    def wr(self, pl, val, st):
+        l = pl['l']; ps = pl['p']
+        if not ps:
+            st.env[l] = val; return
+        if '*' in ps:
+            i = ps.index('*')
+            base = self.rd({'l': l, 'p': ps[:i]}, st)
+            if base[0] == 'lref':
+                self.wr({'l': base[1], 'p': [_up(p) for p in base[2]] + list(ps[i + 1:])}, val, st); return
+            st.events.append(('store', self.rd(pl, st), val, st.bb)); return
+        st.env[l] = self.upd(self.local(l, st), list(ps), val)
+
+    def upd(self, old, ps, val):
+        if not ps: return val
+        p = ps[0]
+        if isinstance(p, dict) and 'f' in p:
+            f = p['f']
+            if old[0] == 'agg':
+                fl = old[2]; i = fl.index(f) if f in fl else (int(f) if (not fl and f.isdigit() and int(f) < len(old[3])) else None)
+                if i is not None:
+                    vals = list(old[3]); vals[i] = self.upd(vals[i], ps[1:], val)
+                    return ('agg', old[1], old[2], tuple(vals))
+            return ('upd', old, f, self.upd(self.field(old, f, p.get('of', '')), ps[1:], val))
+        if isinstance(p, dict) and 'dc' in p: return self.upd(old, ps[1:], val)
+        return ('upd', old, '?', val)
+
+    # ---------------------------------------------------------------- variants / numbers
+    def variant(self, v, st):
+        v = sx_strip(v)
+        if v[0] == 'agg':
+            n = v[1].split('::')[-1]
+            return n if n in GOODV or n in BADV else None
+        r = self.o.variant(self, v, st)
+        if r: return r
+        if v[0] == 'call' and v[1] in SX_LOOK and v[3]:
+            r = self.variant(v[3][0], st)
+            if r:
+                fam = SX_LOOK[v[1]]; good = r in GOODV
+                if fam == 'R': return 'Ok' if good else 'Err'
+                if fam == 'C': return 'Continue' if good else 'Break'
+                return r
+        return None
+
+    def good(self, v, st, option=True):
+        """True / False / None: is the Option/Result/ControlFlow value on its Some/Ok/Continue side"""
+        n = self.variant(v, st)
+        if n: return n in GOODV
+        a = st.assume.get(('discr', sx_strip(v)))
+        if isinstance(a, int): return (a == 1) if option else (a == 0)
+        return None
+
+    def variant_index(self, v, st):
+        v = sx_strip(v)
+        a = st.assume.get(('discr', v))
+        if a is not None: return a
+        if v[0] == 'agg' and '::' in v[1]:
+            n = v[1].split('::')[-1]; en = v[1].rsplit('::', 1)[0]
+            if en.endswith('option::Option'): return {'None': 0, 'Some': 1}.get(n)
+            if en.endswith('result::Result'): return {'Ok': 0, 'Err': 1}.get(n)
+            if en.endswith('ControlFlow'): return {'Continue': 0, 'Break': 1}.get(n)
+            a_ = self.F.adts.get(en) or self.F.adt(en)
+            if a_:
+                for x in a_['variants']:
+                    if x['name'] == n: return x['discr']
+            return None
+        n = self.variant(v, st)
+        if n is None: return None
+        return {'None': 0, 'Some': 1, 'Ok': 0, 'Err': 1, 'Continue': 0, 'Break': 1}[n]
+
+    def conc(self, v, st):
+        """concrete value (float / bool) of a symbolic value under the oracle's numbers, or None"""
+        k = v[0]
+        if k == 'const':
+            t = v[1]
+            if t in ('true', 'false'): return t == 'true'
+            m = re.search(r'([\w:]+)::(\w+)::\{constant#0\}$', t)           # `Enum::Variant as i32`: the explicit discriminant of the variant
+            if m:
+                a_ = self.F.adt(m.group(1))
+                for x in (a_ or {}).get('variants', []):
+                    if x['name'] == m.group(2): return float(x['discr'])
+                return None
+            return T.f64_const(t)
+        if k == 'ref': return self.conc(v[1], st)
+        if k == 'cast': return self.conc(v[2], st)
+        if k == 'field' and v[2] == '0' and v[1][0] == 'bin' and v[1][1].endswith('WithOverflow'): return self.conc(v[1], st)     # (value, overflowed).0
+        if k == 'bin':
+            r = self.o.num(self, v, st)
+            if r is not None: return r
+            a = self.conc(v[2], st); b = self.conc(v[3], st)
+            if a is None or b is None: return None
+            op = v[1].replace('WithOverflow', '').replace('Unchecked', '')
+            try:
+                if op == 'Add': return a + b
+                if op == 'Sub': return a - b
+                if op == 'Mul': return a * b
+                if op == 'Div': return a / b
+                if op == 'Eq': return a == b
+                if op == 'Ne': return a != b
+                if op == 'Lt': return a < b
+                if op == 'Le': return a <= b
+                if op == 'Gt': return a > b
+                if op == 'Ge': return a >= b
+                if op == 'Max': return max(a, b)
+                if op == 'Min': return min(a, b)
+                if op == 'BitAnd' and isinstance(a, bool) and isinstance(b, bool): return a and b
+                if op == 'BitOr' and isinstance(a, bool) and isinstance(b, bool): return a or b
+            except (ZeroDivisionError, OverflowError, TypeError):
+                return None
+            return None
+        if k == 'un':
+            a = self.conc(v[2], st)
+            if a is None: return None
+            if v[1] == 'Neg' and not isinstance(a, bool): return -a
+            if v[1] == 'Not' and isinstance(a, bool): return not a
+            if v[1] == 'Abs' and not isinstance(a, bool): return abs(a)
+            if v[1] == 'Signum' and not isinstance(a, bool): return math.copysign(1.0, a)
+            if v[1] == 'IsNeg' and not isinstance(a, bool): return math.copysign(1.0, a) < 0
+            if v[1] == 'IsPos' and not isinstance(a, bool): return math.copysign(1.0, a) > 0
+            return None
+        return self.o.num(self, v, st)
+
+    def conc_struct(self, v, st):
+        v = sx_strip(v)
+        if v[0] == 'agg' and v[1] == 'tuple':
+            xs = [self.conc_struct(x, st) for x in v[3]]
+            return None if any(x is None for x in xs) else tuple(xs)
+        return self.conc(v, st)
+
+    # ---------------------------------------------------------------- calls
+    def apply(self, f, args, st):
+        """value of calling a closure value on `args` if its body has exactly one returning path"""
+        f = sx_strip(f)
+        if f[0] != 'closure' or self.depth >= 3: return None
+        cb = self.F.bodies.get(f[1])
+        if cb is None: return None
+        envv = ('agg', 'closure-env', tuple(str(i) for i in range(len(f[2]))), tuple(f[2]))
+        if cb.locals[1].lstrip().startswith('&'): envv = ('ref', envv)
+        env = {1: envv}
+        for i, a in enumerate(args): env[2 + i] = a
+        try:
+            ps = Sx(self.ctx, cb, self.o, depth=self.depth + 1, max_paths=60).run(0, env, assume=st.assume)
+        except SxLimit:
+            return None
+        rets = [p for p in ps if p.end == 'return']
+        if len(rets) != 1 or rets[0].value is None: return None
+        st.events.extend(rets[0].events)
+        return rets[0].value
+
+    def call(self, bi, t, args, st):
+        name = t['r'] or t['f']; ri = t.get('ri') or {}
+        item = ri.get('item') or (t.get('rp') or t.get('fp') or name).split('::')[-1]
+        node = ('call', item, name, tuple(args), bi, st.visits.get(bi, 1))     # the n-th execution of this call on the path
+        res = self.o.call(self, node, st)
+        if res is None: res = self.interp(node, ri, st, t)
+        st.events.append(('call', item, name, tuple(args), bi, res))
+        return res
+
+    def interp(self, node, ri, st, t=None):
+        _, item, name, args, bi, occ = node
+        m = T.ARITH_CALL.match(name)
+        if m:                                                        # `a + b` on f64 / &f64 through the ops traits
+            op = m.group(2)
+            if op == 'Neg': return ('un', 'Neg', self.deref(args[0], st))
+            return ('bin', op, self.deref(args[0], st), self.deref(args[1], st))
+        m = T.ASSIGN_CALL.match(name)
+        if m:                                                        # `*x op= y`
+            new = ('bin', m.group(1), self.deref(args[0], st), self.deref(args[1], st))
+            if args[0][0] == 'lref': self.wr({'l': args[0][1], 'p': [_up(p) for p in args[0][2]]}, new, st)
+            else: st.events.append(('store', self.deref(args[0], st), new, bi))
+            return ('agg', 'tuple', (), ())
+        if item == 'abs' and 'f64' in name and args: return ('un', 'Abs', self.deref(args[0], st))
+        if item in ('max', 'min') and re.search(r'f64>?::(max|min)$', name) and len(args) == 2: return ('bin', 'Max' if item == 'max' else 'Min', args[0], args[1])
+        if item in ('eq', 'ne') and 'PartialEq' in (ri.get('trait') or '') and re.search(r'<&?f64 as', name) and len(args) == 2:
+            return ('bin', 'Eq' if item == 'eq' else 'Ne', self.deref(self.deref(args[0], st), st), self.deref(self.deref(args[1], st), st))
+        if T.NOT_CALL.search(name) and args: return ('un', 'Not', self.deref(args[0], st))
+        if len(args) == 2 and ((item in ('call', 'call_mut', 'call_once') and re.search(r'ops::Fn(Mut|Once)?', ri.get('trait') or ''))
+                               or (t is not None and re.search(r' as std::ops::Fn(Mut|Once)?<.*>>::call(_mut|_once)?$', t.get('f') or ''))):
+            f = self.deref(args[0], st) if args[0][0] in ('ref', 'lref') else args[0]          # `f(a, b)` on a closure value: (closure, (a, b))
+            tup = sx_strip(args[1])
+            if sx_strip(f)[0] == 'closure' and tup[0] == 'agg':
+                r = self.apply(f, list(tup[3]), st)
+                if r is not None: return r
+        if item in ('eq', 'ne') and 'PartialEq' in (ri.get('trait') or '') and len(args) == 2:
+            a = self.conc_struct(self.deref(args[0], st), st); b_ = self.conc_struct(self.deref(args[1], st), st)       # tuples of known bools / numbers
+            if a is not None and b_ is not None: return ('const', 'true' if (a == b_) == (item == 'eq') else 'false')
+        if T.TRY_BRANCH.search(name) and args:
+            x = args[0]; g = self.good(x, st, option='Option' in name.split(' as ')[0])
+            if g is True: return ('agg', 'std::ops::ControlFlow::Continue', ('0',), (self.payload(x),))
+            if g is False: return ('agg', 'std::ops::ControlFlow::Break', ('0',), (x,))
+            return node
+        if T.FROM_RESIDUAL.search(name) and args:                     # the early return of `?`
+            if name.startswith('<std::option::Option<'): return ('agg', 'std::option::Option::None', (), ())
+            return ('agg', 'std::result::Result::Err', ('0',), (args[0],))
+        if item in ('then_some', 'then') and re.search(r'bool>?::then(_some)?', name) and len(args) == 2:      # `c.then_some(v)` ≡ `if c { Some(v) } else { None }`
+            c = self.conc(args[0], st)
+            if c is True:
+                r = args[1] if item == 'then_some' else self.apply(args[1], [], st)
+                if r is not None: return ('agg', 'std::option::Option::Some', ('0',), (r,))
+            if c is False: return ('agg', 'std::option::Option::None', (), ())
+        if item in ('signum', 'is_sign_negative', 'is_sign_positive') and 'f64' in name and args:
+            return ('un', {'signum': 'Signum', 'is_sign_negative': 'IsNeg', 'is_sign_positive': 'IsPos'}[item], self.deref(args[0], st))
+        m = SX_OPT_RE.match(name)
+        if m and args:
+            isopt = m.group(1).endswith('Option'); meth = m.group(2); o = args[0]
+            oo = self.deref(o, st) if o[0] in ('ref', 'lref') else o
+            g = self.good(oo, st, option=isopt)
+            some = 'std::option::Option::Some' if isopt else 'std::result::Result::Ok'
+            if meth == 'unwrap_or' and len(args) == 2:
+                if g is True: return self.payload(oo)
+                if g is False: return args[1]
+            elif meth == 'unwrap_or_default':
+                if g is True: return self.payload(oo)
+                if g is False and re.search(r'::<f64(, .*)?>::unwrap_or_default', name): return ('const', '0f64')
+            elif meth in ('unwrap', 'expect', 'unwrap_unchecked'):
+                if g is not False: return self.payload(oo)
+            elif meth in ('is_some', 'is_ok'):
+                if g is not None: return ('const', 'true' if g else 'false')
+            elif meth in ('is_none', 'is_err'):
+                if g is not None: return ('const', 'false' if g else 'true')
+            elif meth == 'unwrap_or_else' and len(args) == 2:
+                if g is True: return self.payload(oo)
+                if g is False:
+                    r = self.apply(args[1], [] if isopt else [self.field(oo, '0', 'Err')], st)
+                    if r is not None: return r
+            elif meth == 'map_or' and len(args) == 3:
+                if g is True:
+                    r = self.apply(args[2], [self.payload(oo)], st)
+                    if r is not None: return r
+                if g is False: return args[1]
+            elif meth == 'map_or_else' and len(args) == 3:
+                r = self.apply(args[2], [self.payload(oo)], st) if g is True else (self.apply(args[1], [], st) if g is False else None)
+                if r is not None: return r
+            elif meth == 'map' and len(args) == 2:
+                if g is True:
+                    r = self.apply(args[1], [self.payload(oo)], st)
+                    if r is not None: return ('agg', some, ('0',), (r,))
+                if g is False: return oo
+            elif meth == 'and_then' and len(args) == 2:
+                if g is True:
+                    r = self.apply(args[1], [self.payload(oo)], st)
+                    if r is not None: return r
+                if g is False: return oo
+            elif meth == 'or' and len(args) == 2 and isopt:
+                if g is True: return oo
+                if g is False: return args[1]
+            elif meth == 'or_else' and len(args) == 2 and isopt:
+                if g is True: return oo
+                if g is False:
+                    r = self.apply(args[1], [], st)
+                    if r is not None: return r
+            elif meth in ('filter', 'is_some_and', 'is_none_or', 'is_ok_and') and len(args) == 2:
+                if g is True:
+                    pv = self.payload(oo)
+                    r = self.apply(args[1], [('ref', pv)] if meth == 'filter' else [pv], st)
+                    if r is not None:
+                        c = self.conc(r, st)
+                        if meth != 'filter': return r
+                        if c is True: return oo
+                        if c is False: return ('agg', 'std::option::Option::None', (), ())
+                if g is False:
+                    if meth == 'filter': return oo
+                    return ('const', 'true' if meth == 'is_none_or' else 'false')
+            elif meth == 'ok_or' and len(args) == 2:
+                if g is True: return ('agg', 'std::result::Result::Ok', ('0',), (self.payload(oo),))
+                if g is False: return ('agg', 'std::result::Result::Err', ('0',), (args[1],))
+            elif meth == 'ok_or_else' and len(args) == 2:
+                if g is True: return ('agg', 'std::result::Result::Ok', ('0',), (self.payload(oo),))
+                if g is False:
+                    r = self.apply(args[1], [], st)
+                    return ('agg', 'std::result::Result::Err', ('0',), (r if r is not None else ('call', 'ok_or_else-error', name, (), bi, 0),))
+            elif meth in SX_IDENT:
+                return oo
+            return node
+        if item in SX_IDENT and args:
+            return self.deref(args[0], st) if args[0][0] in ('ref', 'lref') else args[0]
+        return node
+
+    # ---------------------------------------------------------------- statements
+    def stmt(self, s, st):
+        rv = s['rv']; k = rv['k']
+        if k == 'use': val = self.op(rv['ops'][0], st)
+        elif k in ('ref', 'rawptr'):
+            pl = rv['pl']; mut = rv.get('mut') or k == 'rawptr'
+            if mut and '*' not in pl['p']:
+                val = ('lref', pl['l'], tuple(_hp(p) for p in pl['p']))
+            elif mut and pl['p'] and pl['p'][0] == '*' and '*' not in pl['p'][1:] and self.local(pl['l'], st)[0] == 'lref':
+                b0 = self.local(pl['l'], st)                              # reborrow of a reference to local memory
+                val = ('lref', b0[1], b0[2] + tuple(_hp(p) for p in pl['p'][1:]))
+            else:
+                val = ('ref', self.rd(pl, st))
+        elif k == 'discr': val = ('discr', sx_strip(self.rd(rv['pl'], st)))
+        elif k == 'bin': val = ('bin', rv['op'], self.op(rv['ops'][0], st), self.op(rv['ops'][1], st))
+        elif k == 'un': val = ('un', rv['op'], self.op(rv['ops'][0], st))
+        elif k == 'cast': val = ('cast', rv.get('to', '?'), self.op(rv['ops'][0], st))
+        elif k == 'agg':
+            vals = tuple(self.op(o, st) for o in rv['ops'])
+            if rv['adt'].startswith('closure:'): val = ('closure', rv['adt'][8:], vals)
+            else: val = ('agg', rv['adt'], tuple(rv.get('fields') or ()), vals)
+        else: val = ('undef', -2)
+        self.wr(s['dst'], val, st)
+
+    def decide(self, d, t, st):
+        m = {v: tb for v, tb in t['ts']}
+        a = st.assume.get(d)
+        if a is not None:
+            return t['else'] if a == 'else' else m.get(a, t['else'])
+        c = self.conc(d, st)
+        if c is not None:
+            try: c = int(c)
+            except (ValueError, OverflowError): return None
+            return m.get(c, t['else'])
+        if d[0] == 'discr':
+            i = self.variant_index(d[1], st)
+            if i is not None: return m.get(i, t['else'])
+        return None
+
+    # ---------------------------------------------------------------- paths
+    def run(self, start=0, env=None, stops=(), assume=None):
+        """all paths from `start`: list of SxPath with end in return / stop / panic / cut / unreachable"""
+        out = []; B = self.b.blocks; steps = 0
+        stack = [SxState(start, dict(env or {}), [], dict(assume or {}), {})]
+        while stack:
+            st = stack.pop()
+            while True:
+                steps += 1
+                if steps > self.max_steps or len(out) + len(stack) > self.max_paths: raise SxLimit(self.b.name)
+                bi = st.bb
+                if bi in stops and st.moved:
+                    out.append(SxPath(st, 'stop', bi, None)); break
+                n = st.visits.get(bi, 0) + 1
+                if n > self.max_visits:
+                    out.append(SxPath(st, 'cut', bi, None)); break
+                st.visits[bi] = n; st.moved = True
+                blk = B[bi]
+                for s in blk['st']:
+                    if 'dst' in s: self.stmt(s, st)
+                t = blk['term']; k = t['k']
+                if k == 'return':
+                    out.append(SxPath(st, 'return', bi, st.env.get(0))); break
+                if k in ('goto', 'drop', 'assert'):
+                    st.bb = t['t']; continue
+                if k == 'call':
+                    args = [self.op(a, st) for a in t['args']]
+                    res = self.call(bi, t, args, st)
+                    if t['t'] < 0:
+                        out.append(SxPath(st, 'panic', bi, None)); break
+                    self.wr(t['dst'], res, st); st.bb = t['t']; continue
+                if k == 'switch':
+                    d = self.op(t['d'], st)
+                    tg = self.decide(d, t, st)
+                    if tg is not None:
+                        st.bb = tg; continue
+                    alts = [(v, tb) for v, tb in t['ts']]
+                    if len(alts) == 1 and alts[0][0] == 0: alts.append((1, t['else']))       # bool
+                    elif B[t['else']]['term']['k'] != 'unreachable' or B[t['else']]['st']: alts.append(('else', t['else']))
+                    for v, tb in alts[1:]:
+                        s2 = st.fork(); s2.assume[d] = v; s2.bb = tb; stack.append(s2)
+                    st.assume[d] = alts[0][0]; st.bb = alts[0][1]; continue
+                out.append(SxPath(st, 'unreachable', bi, None)); break
+        return out
+
+
+def sx_table_of(v):
+    """which parsed table (field of Mps) or parameter a receiver value denotes"""
+    v = sx_strip(v)
+    if v[0] == 'lref':
+        fs = [p[1] for p in v[2] if isinstance(p, tuple) and p[0] == 'f' and p[2].endswith('parser::Mps')]
+        if fs: return fs[-1]
+        return ('local', v[1])
+    x = v
+    while x[0] in ('field', 'ref', 'index'):
+        if x[0] == 'field' and x[3].endswith('parser::Mps'): return x[2]
+        x = x[1]
+    if x[0] == 'param': return ('param', x[1])
+    return None
+
+
+def sx_table_calls(path, items=None):
+    """(table, item, args after the receiver, result, bb) of the HashMap/HashSet calls of a path"""
+    out = []
+    for e in path.events:
+        if e[0] == 'call' and re.search(r'Hash(Map|Set)::<', e[2]) and e[3] and (items is None or e[1] in items):
+            out.append((sx_table_of(e[3][0]), e[1], e[3][1:], e[5], e[4]))
+    return out
+
+# =====================================================================================================
+# rule helpers on the CFG (keyword tables, effects per arm)
+# =====================================================================================================
 MPS = 'mps::parser::Mps'; ST = 'mps::parser::State'
 
 
@@ -28,8 +636,7 @@ def check_literals(ctx, rule, body, want, err_variant, exact=False):
     ctx.check(ok, rule + '/keywords', 'T-TABLE', body.name, 'accepted keywords %s, the format requires %s' % (sorted(got), sorted(want)), body.site(), table=sorted(got))
     rest = fallthrough_region(body, tab)
     errs = [bi for bi, st in body.stmts() if bi in rest and st['rv']['k'] == 'agg' and st['rv']['adt'].endswith('MpsParseError::' + err_variant)]
-    ctx.check(bool(errs) and not (rest & body.strict_ok_exits()) and not (rest & {bi for bi in body.panic_blocks() if bi not in body.reach([0], stop=set()) - rest}) or (bool(errs) and not (rest & body.strict_ok_exits())),
-              rule + '/unknown-is-error', 'T-TABLE', body.name, 'an unknown keyword does not lead to MpsParseError::%s' % err_variant, body.site())
+    ctx.check(bool(errs) and not (rest & body.strict_ok_exits()), rule + '/unknown-is-error', 'T-TABLE', body.name, 'an unknown keyword does not lead to MpsParseError::%s' % err_variant, body.site())
     return tab
 
 
@@ -62,6 +669,319 @@ def table_effects(ctx, body, region):
                 v = st['rv']['ops'][0]['v'] if st['rv']['k'] == 'use' and st['rv']['ops'][0]['k'] == 'const' else 'value'
                 eff.add((fs[-1], 'assign', v))
     return eff
+
+
+def sx_paths(ctx, rule, template, body, oracle, start=0, stops=(), env=None):
+    """symbolic paths, or None (and a violation: no verdict is possible) when the function is too large to enumerate"""
+    try:
+        return Sx(ctx, body, oracle).run(start, env, stops)
+    except SxLimit:
+        ctx.bad(rule, template, body.name, 'the function has too many paths for the case analysis (limit reached); rule cannot be decided', body.site())
+        return None
+    except RecursionError:
+        ctx.bad(rule, template, body.name, 'value nesting too deep for the case analysis; rule cannot be decided', body.site())
+        return None
+
+
+def sx_loop_paths(ctx, rule, template, body, oracle, lo):
+    """symbolic paths of ONE iteration of loop `lo` (from its `Some` arm back to the header, or out of the function), entered with
+    what the code before the loop has defined (paths from the function entry to the loop header under the same oracle)"""
+    nextc, header, some_bb, none_bb, blocks = lo
+    pre = sx_paths(ctx, rule, template, body, oracle, 0, {header})
+    if pre is None: return None
+    envs = []
+    for p in pre:
+        if p.end == 'stop' and p.bb == header and p.env not in envs: envs.append(p.env)
+    out = []
+    for env in envs[:4] or [{}]:
+        ps = sx_paths(ctx, rule, template, body, oracle, some_bb, {header}, env)
+        if ps is None: return None
+        out += ps
+    return out
+
+
+def lookup_is_typed_error(ctx, b, c, variant):
+    """the None outcome of lookup `c` is reported as MpsParseError::<variant>.  Equivalent idioms:
+         c.ok_or(E)?                     the error value is the argument
+         c.ok_or_else(|| E)?             the error value is built in the closure
+         match c { None => Err(E) .. }   / let Some(v) = c else { return Err(E) }: built on the None side"""
+    def is_err(ex): return any(x[0] == 'agg' and x[1].endswith('MpsParseError::' + variant) for x in T.expr_walk(ex))
+    seen = set(); work = [c.dst['l']]
+    while work:
+        l = work.pop()
+        if l in seen: continue
+        seen.add(l)
+        for kind, bi, x in b.uses.get(l, ()):
+            if kind == 'call':
+                if x.item == 'ok_or' and len(x.args) > 1 and is_err(T.expr(b, x.args[1])): return True
+                if x.item in ('ok_or_else', 'map_err', 'with_context') and len(x.args) > 1:
+                    for cn in ctx.S.slice_operand(b, x.args[1]).closures:
+                        cb = ctx.F.bodies.get(cn)
+                        if cb is not None and any(st['rv']['k'] == 'agg' and st['rv']['adt'].endswith('MpsParseError::' + variant) for _, st in cb.stmts()): return True
+                if T.ERR_ADAPTORS.search(x.name) or T.TRY_BRANCH.search(x.name): work.append(x.dst['l'])
+            elif kind == 'stmt':
+                rv = x['rv']
+                if rv['k'] == 'discr':
+                    for k3, b3, sw in b.uses.get(x['dst']['l'], ()):
+                        if k3 != 'switch': continue
+                        m = {v: t for v, t in sw['ts']}
+                        r = b.reach([m.get(0, sw['else'])], stop={m.get(1, sw['else'])} - {m.get(0, sw['else'])})
+                        if any(bi_ in r and st['rv']['k'] == 'agg' and st['rv']['adt'].endswith('MpsParseError::' + variant) for bi_, st in b.stmts()): return True
+                elif rv['k'] in ('use', 'ref') and not x['dst']['p']: work.append(x['dst']['l'])
+    return False
+
+# =====================================================================================================
+# the parser (mps/parser.rs)
+# =====================================================================================================
+def _cbool(x): return ('const', 'true' if x else 'false')
+
+
+def _key_class(v):
+    """RANGES: the key of a table access is the ranged row itself or the freshly named second row (built with format!)"""
+    return 'new' if sx_calls(v, 'format') else 'row'
+
+
+class RangeCase(SxOracle):
+    """one RANGES entry: the row is of type `typ` (member of eq / ge / le), declared in `a`, its RHS is `bval`
+    (None: no RHS entry) and the range value parses to `r`"""
+    def __init__(self, typ, bval, r): self.typ = typ; self.bval = bval; self.r = r
+
+    def call(self, sx, node, st):
+        _, item, name, args, bi, occ = node
+        if item in ('contains', 'remove') and 'HashSet::<' in name and len(args) == 2:
+            t = sx_table_of(args[0])
+            if t in ('eq', 'ge', 'le') and _key_class(args[1]) == 'row': return _cbool(t == self.typ)
+        return None
+
+    def variant(self, sx, v, st):
+        if v[0] != 'call': return None
+        if v[1] == 'parse' and 'f64' in v[2]: return 'Ok'
+        if v[1] in ('get', 'get_mut', 'get_key_value') and 'HashMap::<' in v[2] and len(v[3]) == 2 and _key_class(v[3][1]) == 'row':
+            t = sx_table_of(v[3][0])
+            if t == 'a': return 'Some'
+            if t == 'b': return 'Some' if self.bval is not None else 'None'
+        return None
+
+    def num(self, sx, v, st):
+        if v[0] == 'field' and v[3] == 'payload' and v[1][0] == 'call':
+            c = v[1]
+            if c[1] == 'parse' and 'f64' in c[2]: return self.r
+            if c[1] in ('get', 'get_mut') and sx_table_of(c[3][0]) == 'b' and _key_class(c[3][1]) == 'row': return self.bval
+        return None
+
+
+class KeywordCase(SxOracle):
+    """one line of a section: the string tests `x == "LIT"` are true exactly for the literals in `true`, numbers parse to `val`,
+    State flags have the values in `flags`"""
+    def __init__(self, true, val=None, flags=None, objrow=None): self.true = set(true); self.val = val; self.flags = flags or {}; self.objrow = objrow
+
+    def call(self, sx, node, st):
+        _, item, name, args, bi, occ = node
+        if item in ('eq', 'ne') and len(args) == 2 and 'RowName' in name and self.objrow is not None and any(f == 'objective_name' for a in args for o, f in sx_fields(a)):
+            return _cbool(self.objrow == (item == 'eq'))          # `row_name == self.mps.objective_name`
+        if item in ('eq', 'ne') and len(args) == 2 and re.search(r'\bstr\b|String', name):
+            lits = [T._unq(sx_strip(a)[1]) for a in args if sx_strip(a)[0] == 'const' and '"' in sx_strip(a)[1]]
+            if len(lits) == 1: return _cbool((lits[0] in self.true) == (item == 'eq'))
+        return None
+
+    def variant(self, sx, v, st):
+        if v[0] == 'call' and v[1] == 'parse' and 'f64' in v[2]: return 'Ok'
+        return None
+
+    def num(self, sx, v, st):
+        if v[0] == 'field' and v[3] == 'payload' and v[1][0] == 'call' and v[1][1] == 'parse': return self.val
+        if v[0] == 'field' and v[3].endswith('parser::State') and v[2] in self.flags: return self.flags[v[2]]
+        return None
+
+
+def _line_fields(v):
+    """which fields of the line (`fields[k]`) a value is computed from"""
+    return sorted({a[1] for c in sx_calls(v, 'index') for a in c[3][1:] if a[0] == 'const' and re.fullmatch(r'\d+_usize', a[1])})
+
+
+def keyword_effects(ctx, rule, b, true, val, flags=None, objrow=None):
+    """effects of one line on the parsed tables, per successfully completed path: set of (table, op[, value]) and the
+    line fields keys / numbers come from; None if the function cannot be evaluated.  A row of the coefficient matrix
+    reached through a lookup in `a` is the table 'a[row]'."""
+    orc = KeywordCase(true, val, flags, objrow)
+    ps = sx_paths(ctx, rule, 'T-BRANCHFX', b, orc)
+    if ps is None: return None
+    sx = Sx(ctx, b, orc); out = []
+    for p in ps:
+        if p.end != 'return' or p.value is None or sx.variant(p.value, p) == 'Err': continue
+        eff = set(); keys = set(); nums = set(); stores = []
+        for e in p.events:
+            if e[0] == 'call' and e[1] in ('insert', 'remove', 'take') and re.search(r'Hash(Map|Set)::<', e[2]) and e[3] and sx_table_of(e[3][0]) is None:
+                r0 = sx_strip(e[3][0])            # the receiver is the payload of a lookup in a table: `a.get_mut(row)?.insert(..)`
+                if r0[0] == 'field' and r0[3] == 'payload' and r0[1][0] == 'call' and r0[1][1] in ('get_mut', 'entry', 'get') and isinstance(sx_table_of(r0[1][3][0]), str):
+                    c = sx.conc(e[3][2], p) if len(e[3]) == 3 else None
+                    eff.add((sx_table_of(r0[1][3][0]) + '[row]', e[1], 'value' if (c is not None and c == val) else sx_str(e[3][-1], 3)))
+        for tab, item, args, res, bi in sx_table_calls(p, ('insert', 'remove', 'take')):
+            if not isinstance(tab, str): continue
+            op = 'remove' if item == 'take' else item
+            if args: keys |= set(_line_fields(args[0]))
+            if op == 'insert' and len(args) == 2:
+                c = sx.conc(args[1], p)
+                if c is not None:
+                    if sx_calls(args[1], 'parse'): nums |= {f for pc in sx_calls(args[1], 'parse') for f in _line_fields(pc)}
+                    eff.add((tab, op, 'value' if (val is not None and c == val and sx_calls(args[1], 'parse')) else ('-inf' if c == float('-inf') else ('+inf' if c == float('inf') else repr(c)))))
+                elif any(c_[1] == 'new' and 'HashMap' in c_[2] for c_ in sx_calls(args[1])): eff.add((tab, op, 'empty-row'))
+                else: eff.add((tab, op, sx_str(args[1], 3)))
+            else: eff.add((tab, op))
+        for e in p.events:
+            if e[0] == 'store':
+                fs = [f for a, f in sx_fields(e[1]) if a.endswith('parser::Mps') or a.endswith('parser::State')]
+                if fs and sx_strip(e[1])[0] == 'field': stores.append((sx_strip(e[1])[2], e[2]))
+        out.append(dict(eff=eff, keys=sorted(keys), nums=sorted(nums), stores=stores, path=p))
+    return out
+
+
+def ranges_rules(ctx, b):
+    """the RANGES sign table, decided on values:   row type   sign of r     sets                         rhs of the second row
+                                                   G          + or -        new in le                    b + |r|
+                                                   L          + or -        new in ge                    b - |r|
+                                                   E          +             row: eq -> ge, new in le     b + |r|
+                                                   E          -             row: eq -> le, new in ge     b - |r|"""
+    R = 'C17.ranges'
+    def is_b_insert(c): return c.item == 'insert' and 'HashMap::<' in c.name and mps_table_of(b, c.args[0]) == 'b'
+    loops = sorted([lo for lo in T.for_loops(b) if any(c.bb in lo[4] and is_b_insert(c) for c in b.calls)], key=lambda lo: -len(lo[4]))
+    if not loops:
+        ctx.bad(R + '/per-entry', 'T-BRANCHFX', b.name, 'no loop over the (row, value) pairs of a RANGES line that stores a right-hand side', b.site()); return
+    nextc, header, some_bb, none_bb, blocks = loops[0]
+    samples = [(7.0, 3.0), (7.0, -3.0), (None, 0.75), (None, -0.75), (-2.5, 1.5), (-2.5, -1.5)]
+    rows = {'E+': [], 'E-': [], 'G': [], 'L': []}; removed = []; second = []; seen = 0
+    for typ, nm in (('eq', 'E'), ('ge', 'G'), ('le', 'L')):
+        for bval, r in samples:
+            orc = RangeCase(typ, bval, r)
+            ps = sx_loop_paths(ctx, R + '/per-entry', 'T-BRANCHFX', b, orc, loops[0])
+            if ps is None: return
+            sx = Sx(ctx, b, orc)
+            done = [p for p in ps if p.end == 'stop' and p.bb == header]
+            key = nm + ('+' if r > 0 else '-') if nm == 'E' else nm
+            B = bval if bval is not None else 0.0
+            plus = (nm == 'G') or (nm == 'E' and r > 0)
+            want_b = B + abs(r) if plus else B - abs(r)
+            want_sets = {('le' if plus else 'ge', 'insert', 'new')}
+            if nm == 'E': want_sets |= {('eq', 'remove', 'row'), ('ge' if plus else 'le', 'insert', 'row')}
+            case = 'b=%s r=%s' % (bval, r)
+            if not done: rows[key].append('%s: the entry is not processed to the end' % case)
+            for p in done:
+                seen += 1
+                sets = set(); bvals = []; a_ok = False; b_new = False
+                for tab, item, args, res, bb in sx_table_calls(p, ('insert', 'remove', 'take')):
+                    kc = _key_class(args[0]) if args else '?'
+                    if item in ('remove', 'take') and res == ('const', 'false'): continue      # removing a row from a set it is not in: no effect
+                    if tab in ('eq', 'ge', 'le'): sets.add((tab, 'remove' if item == 'take' else item, kc))
+                    elif tab == 'b' and item == 'insert' and len(args) == 2:
+                        bvals.append(sx.conc(args[1], p)); b_new = b_new or kc == 'new'
+                    elif tab == 'a' and item == 'insert' and len(args) == 2 and kc == 'new':
+                        a_ok = a_ok or any(c[1] in ('get', 'get_mut', 'get_key_value') and sx_table_of(c[3][0]) == 'a' and _key_class(c[3][1]) == 'row' for c in sx_calls(args[1]))
+                if sets != want_sets or bvals != [want_b]:
+                    rows[key].append('%s: sets %s, right-hand side of the second row %s; the format says sets %s and %s' % (case, sorted(sets), bvals, sorted(want_sets), want_b))
+                if nm == 'E' and ('eq', 'remove', 'row') not in sets: removed.append(case)
+                if not (a_ok and b_new): second.append('%s %s' % (nm, case))
+    for key in ('E+', 'E-', 'G', 'L'):
+        ctx.check(not rows[key], R + '/' + key, 'T-BRANCHFX', b.name, 'RANGES on a %s row: %s' % (key, '; '.join(sorted(set(rows[key]))[:3])), b.site(nextc.bb), cases=len(samples))
+    ctx.check(seen > 0 and not removed, R + '/E-becomes-two-inequalities', 'T-BRANCHFX', b.name, 'a ranged E row is not removed from the equalities (%s)' % ', '.join(removed[:3]), b.site(nextc.bb))
+    ctx.check(seen > 0 and not second, R + '/second-row-created', 'T-BRANCHFX', b.name, 'the second row (coefficients copied from the ranged row, and its right-hand side) is not created (%s)' % ', '.join(second[:3]), b.site(nextc.bb))
+    # every pair of the line is processed
+    si = ctx.S.slice_operand(b, nextc.args[0])
+    restr = sorted({x.item for x in si.call_objs if x.item in RESTRICTING and 'Iterator' in (x.trait or '')})
+    ctx.check(not restr and 2 in si.params, R + '/every-pair', 'T-LOOPMUST', b.name, 'the loop over the pairs of the line is restricted by %s' % restr, b.site(nextc.bb))
+
+
+class FinishCase(SxOracle):
+    """finish(): one column with upper bound `u` and lower bound `l` (None: no entry); `item_tab` is the table the loop runs over"""
+    def __init__(self, u, l, item_tab, item_local): self.u = u; self.l = l; self.item_tab = item_tab; self.item_local = item_local
+
+    def _tab(self, v):
+        if v[0] == 'call' and v[1] in ('get', 'get_key_value') and 'HashMap::<' in v[2]:
+            t = sx_table_of(v[3][0])
+            return t if t in ('u', 'l') else None
+        return None
+
+    def variant(self, sx, v, st):
+        t = self._tab(v)
+        if t: return 'Some' if getattr(self, t) is not None else 'None'
+        return None
+
+    def num(self, sx, v, st):
+        if v[0] == 'field' and v[3] == 'payload':
+            t = self._tab(v[1])
+            if t: return getattr(self, t)
+        # the loop item (name, value) of the table iterated over
+        x = v
+        while x[0] in ('field', 'ref'): x = x[1]
+        if x == ('undef', self.item_local) and self.item_tab in ('u', 'l') and v[0] == 'field' and v[2] == '1':
+            return getattr(self, self.item_tab)
+        return None
+
+
+def finish_rules(ctx, b):
+    """an integer column with u == 1 and l absent or 0 becomes binary; nothing else does"""
+    rule = 'C17.defaults/finish/integer-0-1-is-binary'
+    def is_bin_insert(c): return c.item == 'insert' and 'HashSet::<' in c.name and mps_table_of(b, c.args[0]) == 'binary'
+    loops = sorted([lo for lo in T.for_loops(b) if any(c.bb in lo[4] and is_bin_insert(c) for c in b.calls)], key=lambda lo: -len(lo[4]))
+    if not loops:
+        ctx.bad(rule, 'T-BRANCHFX', b.name, 'finish() has no loop over the bounded columns that inserts into `binary`', b.site()); return
+    nextc, header, some_bb, none_bb, blocks = loops[0]
+    si = ctx.S.slice_operand(b, nextc.args[0])
+    item_tab = next((t for t in ('u', 'l', 'integer') if si.has_field(MPS, t)), None)
+    probs = []; n = 0
+    for u in (1.0, 2.0) + (() if item_tab == 'u' else (None,)):
+        for l in (None, 0.0, 3.0) if item_tab != 'l' else (0.0, 3.0):
+            orc = FinishCase(u, l, item_tab, nextc.dst['l'])
+            ps = sx_loop_paths(ctx, rule, 'T-BRANCHFX', b, orc, loops[0])
+            if ps is None: return
+            done = [p for p in ps if p.end in ('stop', 'return')]
+            promote = (u == 1.0 and l in (None, 0.0))
+            took = []; both = False
+            for p in done:
+                n += 1
+                tc = sx_table_calls(p)
+                t_int = any(tab == 'integer' and item in ('take', 'remove') for tab, item, a, r, bb in tc)
+                t_bin = any(tab == 'binary' and item == 'insert' for tab, item, a, r, bb in tc)
+                looked = any(tab == 'integer' for tab, item, a, r, bb in tc)
+                took.append((t_int or t_bin, looked)); both = both or (t_int and t_bin)
+            case = 'u=%s l=%s' % (u, l)
+            if promote and not (done and both and all(lk for _, lk in took)): probs.append('%s: not moved from integer to binary' % case)
+            if not promote and any(t for t, _ in took): probs.append('%s: moved to binary' % case)
+    ctx.check(n > 0 and not probs, rule, 'T-BRANCHFX', b.name, 'finish() must turn integer columns with u == 1 and l absent or 0 (and only those) into binaries: %s' % '; '.join(probs[:4]), b.site(nextc.bb))
+
+
+def column_rules(ctx, b):
+    # markers, on values: 'MARKER' + 'INTORG' / 'INTEND' set the integer flag and touch no table; any other marker is an error
+    vals = {}; clean = True
+    for lit, flag in (("'INTORG'", 'true'), ("'INTEND'", 'false')):
+        res = keyword_effects(ctx, 'C17.keywords/markers/effect', b, {"'MARKER'", lit}, 1.5)
+        if res is None: return
+        vals[lit] = sorted({sx_strip(v)[1] if sx_strip(v)[0] == 'const' else sx_str(v, 2) for r in res for f, v in r['stores'] if f == 'is_integer_variable'}) if res else ['no successful path']
+        clean = clean and not any(r['eff'] for r in res)
+    ctx.check(vals == {"'INTORG'": ['true'], "'INTEND'": ['false']} and clean, 'C17.keywords/markers/effect', 'T-BRANCHFX', b.name, 'INTORG/INTEND set the integer flag to %s (and must not touch the tables)' % vals, b.site())
+    res = keyword_effects(ctx, 'C17.keywords/markers/unknown-is-error', b, {"'MARKER'"}, 1.5)
+    if res is None: return
+    errs = [bi for bi, st in b.stmts() if st['rv']['k'] == 'agg' and st['rv']['adt'].endswith('MpsParseError::InvalidMarker')]
+    ctx.check(bool(errs) and not res, 'C17.keywords/markers/unknown-is-error', 'T-TABLE', b.name, 'an unknown marker is not an error', b.site())
+    # a data line: the column is recorded in vars and in integer / real according to the flag; the entry of the objective row
+    # goes to c, every other entry to the declared row of a
+    memb = []; vars_ok = True; objp = []; n = 0
+    for flag in (True, False):
+        for objrow in (True, False):
+            res = keyword_effects(ctx, 'C17.keywords/markers/membership', b, set(), 1.5, {'is_integer_variable': flag}, objrow)
+            if res is None: return
+            res = [r for r in res if r['path'].calls('parse')]              # at least one (row, value) pair was read
+            case = 'integer flag %s, %s' % (flag, 'objective row' if objrow else 'constraint row')
+            if not res: memb.append('%s: the line is not processed' % case)
+            for r in res:
+                n += 1
+                e2 = {e[:2] for e in r['eff']}
+                if (('integer', 'insert') in e2) != flag or (('real', 'insert') in e2) == flag: memb.append('%s: %s' % (case, sorted(x for x in e2 if x[0] in ('integer', 'real'))))
+                vars_ok = vars_ok and ('vars', 'insert') in e2
+                to_c = ('c', 'insert', 'value') in r['eff']; to_a = ('a[row]', 'insert', 'value') in r['eff']
+                if to_c != objrow or to_a == objrow: objp.append('%s: %s' % (case, sorted(e for e in r['eff'] if e[0] in ('c', 'a[row]', 'a'))))
+    ctx.check(n > 0 and not memb, 'C17.keywords/markers/membership', 'T-BRANCHFX', b.name, 'columns inside INTORG/INTEND are not recorded as integer (others as real): %s' % '; '.join(memb[:2]), b.site())
+    ctx.check(n > 0 and vars_ok, 'C17.columns/vars', 'T-BRANCHFX', b.name, 'column is not recorded in vars', b.site())
+    ctx.check(n > 0 and not objp, 'C17.columns/objective-vs-constraint', 'T-BRANCHFX', b.name, 'entries of the objective row must go to c, all others to the declared row of a: %s' % '; '.join(objp[:2]), b.site())
 
 
 def parser_rules(ctx):
@@ -120,142 +1040,64 @@ def parser_rules(ctx):
     b = ctx.method('C17.rows/anchor', ST, 'read_row_field')
     if b is not None:
         tab = check_literals(ctx, 'C17.keywords/rows', b, {'N', 'E', 'G', 'L'}, 'InvalidRowType')
+        # per row type, on values: E/G/L put the row (named by field 1) into eq/ge/le and create its empty coefficient row; N names
+        # the objective once and creates nothing
         want = {'E': {('eq', 'insert'), ('a', 'insert', 'empty-row')}, 'G': {('ge', 'insert'), ('a', 'insert', 'empty-row')}, 'L': {('le', 'insert'), ('a', 'insert', 'empty-row')}}
         for lit, w in want.items():
-            if lit not in tab: continue
-            eff = table_effects(ctx, b, arm_region(b, tab, lit) | b.reach([tab[lit][0]]))
-            eff = {e for e in eff if e[0] in ('eq', 'ge', 'le', 'a')}
-            ctx.check(eff == w, 'C17.rows/' + lit, 'T-BRANCHFX', b.name, 'row type %s has effects %s, expected %s' % (lit, sorted(eff), sorted(w)), b.site(), effects=sorted(map(str, eff)))
-        if 'N' in tab:
-            reg = b.reach([tab['N'][0]], stop={x[0] for l, x in tab.items() if l != 'N'})
-            eff = table_effects(ctx, b, reg)
-            ok = ('objective_name', 'assign', 'value') in eff and not any(e[0] in ('a', 'eq', 'ge', 'le') for e in eff)
-            guarded = any(c.item == 'is_empty' and c.bb in reg for c in b.calls)
-            ctx.check(ok and guarded, 'C17.rows/N', 'T-BRANCHFX', b.name, 'an N row must name the objective (first one only) and create no constraint row; effects %s' % sorted(map(str, eff)), b.site())
+            res = keyword_effects(ctx, 'C17.rows/' + lit, b, {lit}, None)
+            if res is None: continue
+            bad = [r for r in res if r['eff'] != w or r['keys'] != ['1_usize']]
+            ctx.check(bool(res) and not bad, 'C17.rows/' + lit, 'T-BRANCHFX', b.name, 'row type %s has effects %s (row name from line fields %s), expected %s with the name from field 1' % (lit, sorted(bad[0]['eff']) if bad else 'none', bad[0]['keys'] if bad else [], sorted(w)), b.site(), effects=sorted(map(str, res[0]['eff'])) if res else [])
+        res = keyword_effects(ctx, 'C17.rows/N', b, {'N'}, None)
+        if res is not None:
+            named = [r for r in res if any(f == 'objective_name' for f, v in r['stores'])]
+            ok = bool(res) and not any(r['eff'] for r in res) and bool(named) and len(named) < len(res) and all(any(c[1] == 'is_empty' for c in r['path'].calls()) for r in res)
+            ctx.check(ok, 'C17.rows/N', 'T-BRANCHFX', b.name, 'an N row must name the objective (first one only) and create no constraint row; effects %s' % sorted(map(str, set().union(*[r['eff'] for r in res]) if res else [])), b.site())
     # ---- columns: markers, undeclared rows, numbers
     b = ctx.method('C17.keywords/markers/anchor', ST, 'read_column_field')
     if b is not None:
         tab = literal_table(b)
         ctx.check({"'MARKER'", "'INTORG'", "'INTEND'"} <= set(tab), 'C17.keywords/markers/keywords', 'T-TABLE', b.name, 'marker keywords are %s' % sorted(tab), b.site())
-        if "'INTORG'" in tab and "'INTEND'" in tab:
-            vals = {}
-            for lit in ("'INTORG'", "'INTEND'"):
-                reg = arm_region(b, tab, lit)
-                vals[lit] = sorted({e[2] for e in table_effects(ctx, b, reg) if e[0] == 'is_integer_variable'})
-            ctx.check(vals == {"'INTORG'": ['true'], "'INTEND'": ['false']}, 'C17.keywords/markers/effect', 'T-BRANCHFX', b.name, 'INTORG/INTEND set the integer flag to %s' % vals, b.site())
-            sub = {k: v for k, v in tab.items() if k in ("'INTORG'", "'INTEND'")}
-            rest = b.reach([tab["'MARKER'"][0]], stop={t for t, f, c in sub.values()})
-            errs = [bi for bi, st in b.stmts() if bi in rest and st['rv']['k'] == 'agg' and st['rv']['adt'].endswith('MpsParseError::InvalidMarker')]
-            ctx.check(bool(errs) and not (rest & b.strict_ok_exits()), 'C17.keywords/markers/unknown-is-error', 'T-TABLE', b.name, 'an unknown marker is not an error', b.site())
-        # integer flag decides integer / real membership
-        sw = [g for bi in b.live for g in [b.blocks[bi]['term']] if g['k'] == 'switch' and g['d']['k'] != 'const' and (ST, 'is_integer_variable') in T.access_path(b, g['d'])[0]]
-        okk = False
-        for g in sw:
-            m = {v: tg for v, tg in g['ts']}
-            fr = b.reach([m.get(0, g['else'])], stop=set(b.loops())); tr = b.reach([g['else']], stop=set(b.loops()))
-            ei = {e[:2] for e in table_effects(ctx, b, tr - fr)}; er = {e[:2] for e in table_effects(ctx, b, fr - tr)}
-            okk = ('integer', 'insert') in ei and ('real', 'insert') in er
-        ctx.check(okk, 'C17.keywords/markers/membership', 'T-BRANCHFX', b.name, 'columns inside INTORG/INTEND are not recorded as integer (others as real)', b.site())
-        ctx.check(('vars', 'insert') in {e[:2] for e in table_effects(ctx, b, b.live)}, 'C17.columns/vars', 'T-BRANCHFX', b.name, 'column is not recorded in vars', b.site())
-        # objective row vs constraint row
-        eqs = [c for c in b.calls if c.item == 'eq' and 'RowName' in c.name]
-        okk = False
-        for c in eqs:
-            if any((MPS, 'objective_name') in T.access_path(b, a)[0] or mps_table_of(b, a) == 'objective_name' for a in c.args):
-                for g in T.guards_from_call(b, c):
-                    tr = b.reach([g.true_bb], stop=set(b.loops())) - b.reach([g.false_bb], stop=set(b.loops()))
-                    fr = b.reach([g.false_bb], stop=set(b.loops())) - b.reach([g.true_bb], stop=set(b.loops()))
-                    et = {e[:2] for e in table_effects(ctx, b, tr)}; ef = {e[:2] for e in table_effects(ctx, b, fr)}
-                    okk = ('c', 'insert') in et and ('c', 'insert') not in ef and any(x.item == 'get_mut' and mps_table_of(b, x.args[0]) == 'a' and x.bb in fr for x in b.calls)
-        ctx.check(okk, 'C17.columns/objective-vs-constraint', 'T-BRANCHFX', b.name, 'entries of the objective row must go to c, all others to the declared row of a', b.site())
+        column_rules(ctx, b)
     for fn in ('read_column_field', 'read_range_field'):
         b = ctx.method('C17.keywords/undeclared-row/%s/anchor' % fn, ST, fn)
         if b is None: continue
-        gm = [c for c in b.calls if c.item == 'get_mut' and mps_table_of(b, c.args[0]) == 'a']
-        ctx.check(len(gm) == 1, 'C17.keywords/undeclared-row/%s/lookup' % fn, 'T-ERRFLOW', b.name, 'expected one a.get_mut(row)', b.site())
-        errflow_calls(ctx, 'C17.keywords/undeclared-row/%s/is-error' % fn, b, gm, 'undeclared row')
+        # the row named by an entry is looked up in `a`; any of get / get_mut / get_key_value counts as the lookup
+        gm = [c for c in b.calls if c.item in ('get_mut', 'get', 'get_key_value') and 'HashMap::<' in c.name and mps_table_of(b, c.args[0]) == 'a']
+        ctx.check(len(gm) >= 1, 'C17.keywords/undeclared-row/%s/lookup' % fn, 'T-ERRFLOW', b.name, 'the row of an entry is never looked up in a (get / get_mut)', b.site())
+        bad = []; untyped = []
         for c in gm:
-            oko = [x for x in b.calls if x.item == 'ok_or' and c in ctx.S.slice_operand(b, x.args[0]).call_objs]
-            ok = any(T.expr(b, x.args[1])[0] == 'agg' and T.expr(b, x.args[1])[1].endswith('MpsParseError::UnknownRowName') for x in oko)
-            ctx.check(ok, 'C17.keywords/undeclared-row/%s/typed' % fn, 'T-ERRFLOW', b.name, 'undeclared row is not reported as UnknownRowName', b.site(c.bb))
+            res = T.errflow(b, c.dst['l'])
+            bad += [h for k, h in res if k == 'bad']
+            if not lookup_is_typed_error(ctx, b, c, 'UnknownRowName'): untyped.append(c)
+        ctx.check(not bad, 'C17.keywords/undeclared-row/%s/is-error' % fn, 'T-ERRFLOW', b.name, 'undeclared row: %s' % '; '.join(sorted(set(bad))), b.site(gm[0].bb) if gm else b.site())
+        ctx.check(bool(gm) and not untyped, 'C17.keywords/undeclared-row/%s/typed' % fn, 'T-ERRFLOW', b.name, 'undeclared row is not reported as UnknownRowName', b.site(untyped[0].bb) if untyped else b.site())
     for fn in ('read_column_field', 'read_rhs_field', 'read_range_field', 'read_bound_field'):
         b = ctx.F.one(ST, fn)
         if b is None: continue
         ps = [c for c in b.calls if c.item == 'parse' and 'f64' in c.name]
         ctx.check(bool(ps), 'C17.keywords/numbers/%s/parsed' % fn, 'T-ERRFLOW', b.name, 'no number is parsed', b.site())
-        errflow_calls(ctx, 'C17.keywords/numbers/%s/error' % fn, b, ps, 'unparsable number')
+        bad = [h for c in ps for k, h in T.errflow(b, c.dst['l']) if k == 'bad']
+        ctx.check(not bad, 'C17.keywords/numbers/%s/error' % fn, 'T-ERRFLOW', b.name, 'unparsable number: %s' % '; '.join(sorted(set(bad))), b.site(ps[0].bb) if ps else b.site())
     # ---- rhs
     b = ctx.method('C17.rhs/anchor', ST, 'read_rhs_field')
     if b is not None:
         eff = table_effects(ctx, b, b.live)
         ctx.check(('b', 'insert', 'value') in eff, 'C17.rhs/stores-b', 'T-BRANCHFX', b.name, 'RHS value is not stored in b', b.site())
-        for lo in T.for_loops(b):
-            loop_must(ctx, 'C17.rhs/every-pair', b, lo, lambda c: c.item == 'insert' and mps_table_of(b, c.args[0]) == 'b', 'b.insert(row, value)')
+        def is_b_insert(c): return c.item == 'insert' and mps_table_of(b, c.args[0]) == 'b'
+        los = [lo for lo in T.for_loops(b) if any(c.bb in lo[4] and is_b_insert(c) for c in b.calls)]
+        skipped = [lo for lo in los if not T.must_pass(b, lo[2], {lo[1]}, {c.bb for c in b.calls if c.bb in lo[4] and is_b_insert(c)})]
+        restr = sorted({x.item for lo in los for x in ctx.S.slice_operand(b, lo[0].args[0]).call_objs if x.item in RESTRICTING and 'Iterator' in (x.trait or '')})
+        ctx.check(bool(los) and not skipped, 'C17.rhs/every-pair', 'T-LOOPMUST', b.name, 'a (row, value) pair of an RHS line can be passed without b.insert(row, value)' if los else 'no loop over the pairs of an RHS line', b.site())
+        ctx.check(bool(los) and not restr, 'C17.rhs/every-pair/all-items', 'T-LOOPMUST', b.name, 'the loop over the pairs is restricted by %s' % restr, b.site())
     # ---- ranges: the RANGES sign table
     b = ctx.method('C17.ranges/anchor', ST, 'read_range_field')
-    if b is not None:
-        hdrs = set(b.loops())
-        conts = {}
-        for c in b.calls:
-            if c.item == 'contains' and 'HashSet' in c.name:
-                tab = mps_table_of(b, c.args[0])
-                if tab in ('eq', 'ge', 'le'):
-                    for g in T.guards_from_call(b, c): conts[tab] = g
-        ctx.check(set(conts) == {'eq', 'ge', 'le'}, 'C17.ranges/row-type-tests', 'T-BRANCHFX', b.name, 'row type tests found: %s' % sorted(conts), b.site())
-        def leaf_effects(reg):
-            ops = []
-            for bi, st in b.stmts():
-                if bi in reg and st['rv']['k'] == 'bin' and st['rv'].get('ty') == 'f64' and st['rv']['op'] in ('Add', 'Sub'):
-                    l = T.expr(b, st['rv']['ops'][0], depth=10); r = T.expr(b, st['rv']['ops'][1], depth=10)
-                    base_ok = any(x[0] == 'call' and x[1] == 'get' for x in T.expr_walk(l)) or any(x[0] == 'call' and x[1] in ('unwrap_or', 'copied', 'unwrap_or_default') for x in T.expr_walk(l))
-                    ops.append((st['rv']['op'], 'b' if base_ok else T.expr_str(l, 3), '|r|' if T.expr_has_call(r, 'abs') else ('r' if r[0] in ('local', 'place') else T.expr_str(r, 3))))
-            for c in b.calls:
-                m = T.ARITH_CALL.match(c.name)
-                if c.bb in reg and m and m.group(2) in ('Add', 'Sub'):
-                    l = T.expr(b, c.args[0], depth=10); r = T.expr(b, c.args[1], depth=10)
-                    base_ok = any(x[0] == 'call' and x[1] in ('get', 'unwrap_or', 'copied', 'unwrap_or_default') for x in T.expr_walk(l))
-                    ops.append((m.group(2), 'b' if base_ok else T.expr_str(l, 3), '|r|' if T.expr_has_call(r, 'abs') else ('r' if T.strip_wrappers(r)[0] in ('local', 'place') else T.expr_str(r, 3))))
-            sets = {e[:2] for e in table_effects(ctx, b, reg) if e[0] in ('eq', 'ge', 'le')}
-            return ops, sets
-        if set(conts) == {'eq', 'ge', 'le'}:
-            others = lambda k: {conts[x].true_bb for x in conts if x != k}
-            table = {}
-            ge_ = conts['eq']
-            eq_reg = T.reach_cp(b, [ge_.true_bb], stop=hdrs) - T.reach_cp(b, [ge_.false_bb], stop=hdrs)
-            # sign of the range inside the E case
-            pos = None
-            for bi, st in float_cmp_sites(b, ('Gt', 'Lt', 'Ge', 'Le')):
-                if bi in eq_reg and any(o['k'] == 'const' and o['v'] == '0f64' for o in st['rv']['ops']):
-                    for g in T.guards_from_local(b, st['dst']['l'], bi):
-                        op = st['rv']['op']; cr = st['rv']['ops'][1]['k'] == 'const'
-                        pos_true = (op in ('Gt', 'Ge')) == cr
-                        pos = (g.true_bb, g.false_bb) if pos_true else (g.false_bb, g.true_bb)
-            if pos:
-                pr = T.reach_cp(b, [pos[0]], stop=hdrs) - T.reach_cp(b, [pos[1]], stop=hdrs); nr = T.reach_cp(b, [pos[1]], stop=hdrs) - T.reach_cp(b, [pos[0]], stop=hdrs)
-                table['E+'] = leaf_effects(pr & eq_reg); table['E-'] = leaf_effects(nr & eq_reg)
-                shared = leaf_effects(eq_reg - pr - nr)[0]
-                if not table['E+'][0] and not table['E-'][0] and shared == [('Add', 'b', 'r')]:
-                    # `b + r` computed once for both signs is the same as b + |r| / b - |r|
-                    table['E+'] = (shared, table['E+'][1]); table['E-'] = (shared, table['E-'][1])
-            for k, name in (('ge', 'G'), ('le', 'L')):
-                g = conts[k]
-                reg = T.reach_cp(b, [g.true_bb], stop=hdrs) - T.reach_cp(b, [g.false_bb], stop=hdrs)
-                table[name] = leaf_effects(reg)
-            want = {'E+': ([('Add', 'b', '|r|')], {('ge', 'insert'), ('le', 'insert')}), 'E-': ([('Sub', 'b', '|r|')], {('le', 'insert'), ('ge', 'insert')}),
-                    'G': ([('Add', 'b', '|r|')], {('le', 'insert')}), 'L': ([('Sub', 'b', '|r|')], {('ge', 'insert')})}
-            for k in want:
-                got = table.get(k)
-                alt = {'E+': [[('Add', 'b', 'r')]], 'E-': [[('Add', 'b', 'r')]]}.get(k, [])     # the sign of r is known inside the E cases
-                ctx.check(got is not None and (got[0] == want[k][0] or got[0] in alt) and got[1] == want[k][1], 'C17.ranges/' + k, 'T-BRANCHFX', b.name,
-                          'RANGES on a %s row: second right-hand side is %s with sets %s; the format says %s' % (k, got and got[0], got and sorted(got[1]), want[k][0]), b.site(), table=str(got))
-            eqrm = ('eq', 'remove') in {e[:2] for e in table_effects(ctx, b, eq_reg)}
-            ctx.check(eqrm, 'C17.ranges/E-becomes-two-inequalities', 'T-BRANCHFX', b.name, 'a ranged E row is not removed from the equalities', b.site())
-        eff = {e[:2] for e in table_effects(ctx, b, b.live)}
-        ctx.check(('a', 'insert') in eff and ('b', 'insert') in eff, 'C17.ranges/second-row-created', 'T-BRANCHFX', b.name, 'the second row (coefficients and right-hand side) is not created', b.site())
+    if b is not None: ranges_rules(ctx, b)
     # ---- bounds
     b = ctx.method('C17.bounds/anchor', ST, 'read_bound_field')
     if b is not None:
         tab = check_literals(ctx, 'C17.keywords/bounds', b, {'UP', 'LO', 'FX', 'MI', 'PL', 'FR', 'BV', 'LI', 'UI'}, 'InvalidBoundType')
+        # per bound type, on values (a positive and a negative number): effect on the parsed tables, column from field 2, number from field 3
         want = {
             'LO': {('l', 'insert', 'value')}, 'UP': {('u', 'insert', 'value')}, 'FX': {('l', 'insert', 'value'), ('u', 'insert', 'value')},
             'MI': {('l', 'insert', '-inf')}, 'FR': {('l', 'insert', '-inf')}, 'PL': set(),
@@ -265,28 +1107,327 @@ def parser_rules(ctx):
         alt = {'PL': [set(), {('u', 'insert', '+inf')}], 'FR': [{('l', 'insert', '-inf')}, {('l', 'insert', '-inf'), ('u', 'insert', '+inf')}]}
         for lit, w in want.items():
             if lit not in tab: continue
-            eff = table_effects(ctx, b, arm_region(b, tab, lit))
-            ok = eff == w or eff in alt.get(lit, [])
-            ctx.check(ok, 'C17.bounds/' + lit, 'T-BRANCHFX', b.name, 'bound type %s has effects %s, expected %s' % (lit, sorted(eff), sorted(w)), b.site(), effects=sorted(map(str, eff)))
-            ctx.sample(dict(rule='C17.bounds', keyword=lit, effects=sorted(map(str, eff))))
+            res = []
+            for val in (3.25, -1.5):
+                r = keyword_effects(ctx, 'C17.bounds/' + lit, b, {lit}, val)
+                if r is None: res = None; break
+                if not r: res.append(dict(eff={('no successful path',)}, keys=[], nums=[], stores=[]))
+                res += r
+            if res is None: continue
+            bad = [r for r in res if not (r['eff'] == w or r['eff'] in alt.get(lit, []))]
+            ctx.check(bool(res) and not bad, 'C17.bounds/' + lit, 'T-BRANCHFX', b.name, 'bound type %s has effects %s, expected %s' % (lit, sorted(bad[0]['eff']) if bad else 'none', sorted(w)), b.site(), effects=sorted(map(str, res[0]['eff'])) if res else [])
+            ctx.sample(dict(rule='C17.bounds', keyword=lit, effects=sorted(map(str, res[0]['eff'])) if res else []))
             # column name is field 2, value field 3
-            reg = arm_region(b, tab, lit)
-            idx = sorted({c.args[1]['v'] for c in b.calls if c.bb in reg and c.item == 'index' and len(c.args) > 1 and c.args[1]['k'] == 'const'})
-            wantidx = ['2_usize'] if lit in ('MI', 'FR', 'BV') else ([] if lit == 'PL' else ['2_usize', '3_usize'])
-            ctx.check(idx == wantidx or (lit in ('PL',) and idx in ([], ['2_usize'])), 'C17.bounds/%s/fields' % lit, 'T-CONST', b.name, 'reads line fields %s, expected %s' % (idx, wantidx), b.site())
-        if 'FX' in tab:
-            reg = arm_region(b, tab, 'FX')
-            ins = [c for c in b.calls if c.bb in reg and c.item == 'insert' and mps_table_of(b, c.args[0]) in ('l', 'u')]
-            same = len(ins) == 2 and T.expr_str(T.expr(b, ins[0].args[2]), 8) == T.expr_str(T.expr(b, ins[1].args[2]), 8)
-            ctx.check(same, 'C17.bounds/FX/same-value', 'T-CARRY', b.name, 'FX does not store the same value in l and u', b.site())
+            wantk = [] if lit == 'PL' else ['2_usize']; wantn = ['3_usize'] if any(len(e) == 3 and e[2] == 'value' for e in w) else []
+            badf = [r for r in res if not ((r['keys'] == wantk or (lit == 'PL' and r['keys'] in ([], ['2_usize']))) and r['nums'] == wantn)]
+            ctx.check(bool(res) and not badf, 'C17.bounds/%s/fields' % lit, 'T-CONST', b.name, 'column from line fields %s and number from %s, expected %s / %s' % (badf[0]['keys'] if badf else [], badf[0]['nums'] if badf else [], wantk, wantn), b.site())
+            if lit == 'FX':
+                def same(r):
+                    vs = [a[1] for t_, it, a, rs, bi in sx_table_calls(r['path'], ('insert',)) if t_ in ('l', 'u') and len(a) == 2] if 'path' in r else []
+                    return len(vs) == 2 and vs[0] == vs[1]
+                ctx.check(bool(res) and all(same(r) for r in res), 'C17.bounds/FX/same-value', 'T-CARRY', b.name, 'FX does not store the same value in l and u', b.site())
     # ---- finish(): integer [0,1] => binary
     b = ctx.method('C17.defaults/finish/anchor', ST, 'finish')
-    if b is not None:
-        cmps = [(bi, st) for bi, st in float_cmp_sites(b, ('Eq', 'Ne'))]
-        consts = sorted({o['v'] for bi, st in cmps for o in st['rv']['ops'] if o['k'] == 'const'})
-        eff = {e[:2] for e in table_effects(ctx, b, b.live)}
-        ctx.check(consts == ['0f64', '1f64'] and ('integer', 'take') in eff and ('binary', 'insert') in eff, 'C17.defaults/finish/integer-0-1-is-binary', 'T-BRANCHFX', b.name,
-                  'finish() does not turn integer columns with u == 1 and l absent or 0 into binaries (constants %s, effects %s)' % (consts, sorted(eff)), b.site())
+    if b is not None: finish_rules(ctx, b)
+
+# =====================================================================================================
+# the converter (mps/convert.rs)
+# =====================================================================================================
+def _find_function(v):
+    """('Constant', value, None) / ('Linear', constant, terms) of the v1::Function inside a returned value"""
+    for x in sx_walk(v):
+        if x[0] == 'agg' and x[1].endswith('function::Function::Constant') and x[3]: return ('Constant', x[3][0], None)
+        if x[0] == 'agg' and x[1].endswith('function::Function::Linear') and x[3]:
+            lin = sx_strip(x[3][0])
+            if lin[0] == 'agg' and lin[1].endswith('v1::Linear') and 'constant' in lin[2] and 'terms' in lin[2]:
+                return ('Linear', lin[3][lin[2].index('constant')], lin[3][lin[2].index('terms')])
+            return ('Linear', None, None)
+    return None
+
+
+def _is_minus_one(sx, v, st):
+    return sx.conc(v, st) == -1.0
+
+
+def _negated_coefficients(sx, p):
+    """events of a path that flip the sign of a term coefficient:  `t.coefficient *= -1.`  ≡  `t.coefficient = -t.coefficient`
+    ≡  building `Term { coefficient: -t.coefficient, .. }` / `* -1.` for a new vector"""
+    def neg_of_coeff(v):
+        v = sx_strip(v)
+        if v[0] == 'un' and v[1] == 'Neg': inner = v[2]
+        elif v[0] == 'bin' and v[1] == 'Mul' and _is_minus_one(sx, v[3], p): inner = v[2]
+        elif v[0] == 'bin' and v[1] == 'Mul' and _is_minus_one(sx, v[2], p): inner = v[3]
+        else: return False
+        return any(f == 'coefficient' for a, f in sx_fields(inner))
+    out = []
+    for e in p.events:
+        if e[0] == 'store' and sx_strip(e[1])[0] == 'field' and sx_strip(e[1])[2] == 'coefficient' and neg_of_coeff(e[2]): out.append(e)
+        elif e[0] == 'call':
+            for a in e[3]:
+                a = sx_strip(a)
+                if a[0] == 'agg' and a[1].endswith('linear::Term') and 'coefficient' in a[2] and neg_of_coeff(a[3][a[2].index('coefficient')]): out.append(e)
+    return out
+
+
+class SignCase(SxOracle):
+    """convert_inequality: the row is in set `typ` (eq / ge / le / None), the right-hand side is `bval`, terms empty or not.
+    Tables are identified by parameter position (the call site is checked for passing eq, ge, le in this order)."""
+    TABS = {('param', 4): 'eq', ('param', 5): 'ge', ('param', 6): 'le', 'eq': 'eq', 'ge': 'ge', 'le': 'le'}
+
+    def __init__(self, typ, bval, empty): self.typ = typ; self.bval = bval; self.empty = empty
+
+    def call(self, sx, node, st):
+        _, item, name, args, bi, occ = node
+        if item == 'contains' and 'HashSet::<' in name and len(args) == 2:
+            t = self.TABS.get(sx_table_of(args[0]))
+            if t: return _cbool(t == self.typ)
+        if item == 'is_empty' and 'Vec::<' in name: return _cbool(self.empty)
+        return None
+
+    def num(self, sx, v, st):
+        return self.bval if v == ('param', 2) else None
+
+
+def sign_rules(ctx, R, ib):
+    """`a x (=|<=) b` becomes `a x - b (=|<=) 0`;  `a x >= b` becomes `-a x + b <= 0`  (a constant-only row included)"""
+    want_eq = {'eq': {'EqualToZero'}, 'le': {'LessThanOrEqualToZero'}, 'ge': {'LessThanOrEqualToZero'}}
+    probs = []; n = 0
+    for typ in ('eq', 'le', 'ge', None):
+        for empty in (False, True):
+            flipped = 0; paths = 0; rebuilds = 0; pending = []
+            for bval in (5.0, -2.5, 0.0):
+                orc = SignCase(typ, bval, empty)
+                ps = sx_paths(ctx, R + '.sign/rows/table', 'T-BRANCHFX', ib, orc)
+                if ps is None: return
+                sx = Sx(ctx, ib, orc)
+                rets = [p for p in ps if p.end == 'return' and p.value is not None]
+                case = '%s row, b=%s, %s' % (typ or 'untyped', bval, 'no terms' if empty else 'with terms')
+                if not rets: probs.append('%s: no result' % case)
+                for p in rets:
+                    n += 1; paths += 1
+                    fn = _find_function(p.value)
+                    if fn is None or fn[1] is None:
+                        probs.append('%s: no function is returned' % case); continue
+                    got = sx.conc(fn[1], p); want = bval if typ == 'ge' else -bval
+                    if got is None or got != want: probs.append('%s: constant is %s (%s), expected %s' % (case, got, sx_str(fn[1], 3), want))
+                    # the terms are the parameter itself (possibly changed in place), or a vector rebuilt from its items
+                    direct = fn[0] == 'Linear' and fn[2] is not None and any(x == ('param', 1) for x in sx_walk(fn[2]))
+                    rebuilt = fn[0] == 'Linear' and fn[2] is not None and sx_strip(fn[2])[0] == 'call'
+                    if rebuilt and any(e[0] == 'call' and e[1] == 'push' and any(sx_mentions(p, a, ('param', 1)) for a in e[3][1:]) for e in p.events): rebuilds += 1
+                    if not empty and not direct:
+                        if rebuilt: pending.append(case)
+                        else: probs.append('%s: the terms of the row are not carried' % case)
+                    eqs = {re.search(r'Equality::(\w+)', x[1]).group(1) for x in sx_walk(p.value) if x[0] == 'const' and 'Equality::' in x[1]}
+                    if typ and eqs != want_eq[typ]: probs.append('%s: equality is %s' % (case, sorted(eqs)))
+                    if _negated_coefficients(sx, p): flipped += 1
+            if pending and not rebuilds: probs.append('%s: the terms of the row are not carried' % pending[0])
+            if not empty:
+                if typ == 'ge' and not flipped: probs.append('ge row with terms: coefficients are not multiplied by -1')
+                if typ != 'ge' and flipped: probs.append('%s row with terms: coefficients are multiplied by -1' % (typ or 'untyped'))
+    ctx.check(n > 0 and not probs, R + '.sign/rows/table', 'T-BRANCHFX', ib.name, 'row normalisation (eq / le: terms kept, -b; ge: terms * -1, +b): %s' % '; '.join(sorted(set(probs))[:4]), ib.site(), table=str(sorted(set(probs))))
+
+
+class ObjCase(SxOracle):
+    """convert_objective: the RHS table has (or has not) an entry under the objective row name"""
+    def __init__(self, bval, empty): self.bval = bval; self.empty = empty
+
+    def _is(self, v):
+        return (v[0] == 'call' and v[1] in ('get', 'get_key_value') and 'HashMap::<' in v[2] and len(v[3]) == 2 and sx_table_of(v[3][0]) == 'b'
+                and any(f == 'objective_name' and a.endswith('parser::Mps') for a, f in sx_fields(v[3][1])))
+
+    def variant(self, sx, v, st):
+        if self._is(v): return 'Some' if self.bval is not None else 'None'
+        return None
+
+    def num(self, sx, v, st):
+        if v[0] == 'field' and v[3] == 'payload' and self._is(v[1]): return self.bval
+        return None
+
+    def call(self, sx, node, st):
+        if node[1] == 'is_empty' and 'Vec::<' in node[2]: return _cbool(self.empty)
+        return None
+
+
+def objective_rules(ctx, R, ob):
+    gets = [c for c in ob.calls if c.item in ('get', 'get_key_value') and 'HashMap' in c.name and mps_table_of(ob, c.args[0]) == 'b']
+    okk = len(gets) >= 1 and all(mps_table_of(ob, c.args[1]) == 'objective_name' for c in gets)
+    ctx.check(okk, R + '.sign/objective/constant-of-objective-row', 'T-CARRY', ob.name, 'the objective constant is not looked up under the file\'s objective row name', ob.site())
+    probs = []; terms_ok = True; n = 0
+    for bval in (4.0, -1.5, 0.0, None):
+        for empty in (False, True):
+            orc = ObjCase(bval, empty)
+            ps = sx_paths(ctx, R + '.sign/objective/negated', 'T-BRANCHFX', ob, orc)
+            if ps is None: return
+            sx = Sx(ctx, ob, orc)
+            rets = [p for p in ps if p.end == 'return' and p.value is not None]
+            case = 'RHS of the objective row %s, %s' % (bval, 'no terms' if empty else 'with terms')
+            if not rets: probs.append('%s: no result' % case)
+            for p in rets:
+                n += 1
+                fn = _find_function(p.value)
+                if fn is None or fn[1] is None:
+                    probs.append('%s: no function is returned' % case); continue
+                got = sx.conc(fn[1], p); want = -(bval or 0.0)
+                if got is None or got != want: probs.append('%s: constant is %s (%s), expected %s' % (case, got, sx_str(fn[1], 3), want))
+                if not empty:
+                    cs = [c for c in sx_calls(fn[2] if fn[2] is not None else ('undef', 0), 'convert_terms')]
+                    if fn[0] != 'Linear' or not cs or not all(sx_table_of(c[3][0]) == 'c' for c in cs): terms_ok = False
+    ctx.check(n > 0 and not probs, R + '.sign/objective/negated', 'T-BRANCHFX', ob.name, 'the objective constant is minus the RHS entry of the objective row: %s' % '; '.join(sorted(set(probs))[:3]), ob.site())
+    ctx.check(n > 0 and terms_ok, R + '.sign/objective/terms-from-c', 'T-CARRY', ob.name, 'objective terms do not come from c', ob.site())
+
+
+class BoundCase(SxOracle):
+    """get_dvar_bound: the column has lower bound `l` / upper bound `u` in the parsed tables (None: no entry).
+    Tables are parameters 2 (l) and 3 (u) (the call site is checked for this order) or the fields of Mps."""
+    TABS = {('param', 2): 'l', ('param', 3): 'u', 'l': 'l', 'u': 'u'}
+
+    def __init__(self, l, u): self.l = l; self.u = u
+
+    def _tab(self, v):
+        if v[0] == 'call' and v[1] in ('get', 'get_key_value') and 'HashMap::<' in v[2] and v[3]: return self.TABS.get(sx_table_of(v[3][0]))
+        return None
+
+    def variant(self, sx, v, st):
+        t = self._tab(v)
+        if t: return 'Some' if getattr(self, t) is not None else 'None'
+        return None
+
+    def call(self, sx, node, st):
+        if node[1] == 'contains_key' and 'HashMap::<' in node[2] and node[3]:
+            t = self.TABS.get(sx_table_of(node[3][0]))
+            if t: return _cbool(getattr(self, t) is not None)
+        return None
+
+    def num(self, sx, v, st):
+        if v[0] == 'field' and v[3] == 'payload':
+            t = self._tab(v[1])
+            if t: return getattr(self, t)
+        return None
+
+
+def bound_default_rules(ctx, rule, bb):
+    """(None,None) => [0,+inf); (l,None) => [l,+inf); (None,u) => (-inf,u] if u <= 0 else [0,u]; (l,u) => [l,u]
+    decided on the values of `lower` / `upper` of the returned Bound for every combination of table entries"""
+    inf = float('inf')
+    looked = set(); probs = []; neg = []; n = 0
+    for l in (None, 2.5, -1.0):
+        for u in (None, -3.0, 0.5, 4.0):              # u == 0 is left open: the property speaks of a negative upper bound
+            orc = BoundCase(l, u)
+            ps = sx_paths(ctx, rule + '/table', 'T-BRANCHFX', bb, orc)
+            if ps is None: return
+            sx = Sx(ctx, bb, orc)
+            want = (l if l is not None else (0.0 if (u is None or u > 0) else -inf), u if u is not None else inf)
+            rets = [p for p in ps if p.end == 'return']
+            case = '(l=%s, u=%s)' % (l, u)
+            if not rets: probs.append('%s: no result' % case)
+            for p in rets:
+                n += 1
+                for tab, item, args, res, bi in sx_table_calls(p): looked.add(BoundCase.TABS.get(tab))
+                v = sx_strip(p.value) if p.value is not None else ('undef', 0)
+                if v[0] == 'agg' and v[1].endswith('v1::Bound') and 'lower' in v[2] and 'upper' in v[2]:
+                    got = (sx.conc(v[3][v[2].index('lower')], p), sx.conc(v[3][v[2].index('upper')], p))
+                else: got = (None, None)
+                if got != want:
+                    probs.append('%s => %s, expected %s' % (case, got, want))
+                    if l is None and u is not None and u <= 0: neg.append(case)
+    ctx.check({'l', 'u'} <= looked, rule + '/lookups', 'T-CARRY', bb.name, 'the bound is not looked up in both l and u (found %s)' % sorted(x for x in looked if x), bb.site())
+    ctx.check(n > 0 and not probs, rule + '/table', 'T-BRANCHFX', bb.name, 'bound defaults: %s' % '; '.join(probs[:4]), bb.site(), table=str(probs))
+    ctx.check(n > 0 and not neg, rule + '/negative-upper-opens-lower', 'T-BRANCHFX', bb.name, 'a non-positive upper bound without lower bound does not open the lower bound %s' % neg[:2], bb.site())
+
+
+class ParseCase(SxOracle):
+    """every parse_id_tag(..) call gives Some (or None); with `only` (a set of blocks) just the calls made there"""
+    def __init__(self, v, only=None): self.v = v; self.only = only
+
+    def variant(self, sx, v, st):
+        if self.v and v[0] == 'call' and v[1] == 'parse_id_tag' and (self.only is None or v[4] in self.only): return self.v
+        if self.v and v[0] == 'call' and v[1] == 'map' and 'Option::<' in v[2] and v[3]: return sx.variant(v[3][0], st)    # Some stays Some under map
+        return None
+
+
+def recovery_rules(ctx, rule, names_rule, b, prefix_const, table, elem_adt, name_adt, what):
+    """ids are recovered from the generated names only when EVERY name parses as <prefix><number>; otherwise ids go by
+    order and the file's names are carried; every row / column yields an element either way.
+    The shape of the code is free: two loops under an `if any(..)`, one loop with a flag, `!any(is_none)` or `all(is_some)`."""
+    def elem_push(c):
+        if c.item not in ('push', 'insert', 'push_back'): return False
+        for a in c.args[1:]:
+            if a['k'] in ('copy', 'move') and not a['pl']['p'] and b.locals[a['pl']['l']].strip().endswith(elem_adt): return True
+            ex = T.strip_wrappers(T.expr(b, a, depth=4))
+            if ex[0] == 'agg' and ex[1].endswith(elem_adt): return True
+        return False
+    def sx_elems(p):
+        out = []
+        for e in p.events:
+            if e[0] == 'call' and e[1] in ('push', 'insert', 'push_back'):
+                for a in e[3][1:]:
+                    a = sx_strip(a)
+                    if a[0] == 'agg' and a[1].endswith(elem_adt): out.append(a)
+        return out
+    def fld(a, f): return a[3][a[2].index(f)] if f in a[2] else ('undef', 0)
+    loops = T.for_loops(b)
+    push_loops = [lo for lo in loops if any(c.bb in lo[4] and elem_push(c) for c in b.calls)]
+    push_loops = [lo for lo in push_loops if not any(set(o[4]) < set(lo[4]) and o in push_loops for o in push_loops)] or push_loops
+    # ---- the guard: a scan over all names that is left early exactly when a name does not parse
+    guards = []
+    for lo in loops:
+        nextc, header, some_bb, none_bb, blocks = lo
+        pcs = [c for c in b.calls if c.bb in blocks and c.item == 'parse_id_tag']
+        if not pcs or lo in push_loops: continue
+        if not all(prefix_const in T.expr_str(T.expr(b, c.args[0]), 4) for c in pcs): continue
+        si = ctx.S.slice_operand(b, nextc.args[0])
+        if not si.has_field(MPS, table) or any(x.item in RESTRICTING and 'Iterator' in (x.trait or '') for x in si.call_objs): continue
+        outside = {s for bi in blocks for s in b.succ(bi) if s not in blocks and not b.blocks[s]['cleanup']}
+        ends = {}
+        for var in ('None', 'Some'):
+            try: ps = Sx(ctx, b, ParseCase(var)).run(some_bb, None, {header} | outside)
+            except SxLimit: ps = []
+            ends[var] = {p.bb for p in ps if p.end == 'stop'}
+        if ends['None'] and ends['None'] <= outside and ends['Some'] == {header}:
+            guards.append((lo, ends['None']))
+    ctx.check(len(guards) >= 1, rule + '/recovery-guard', 'T-GUARD', b.name, 'id recovery is not guarded by `every name parses as <prefix><number>` (a scan of all %s that stops at the first name that does not parse)' % what, b.site())
+    if not push_loops: ctx.bad(rule + '/every-element', 'T-LOOPMUST', b.name, 'no loop builds the %ss' % what, b.site())
+    if not guards or not push_loops: return
+    glo, hits = guards[0]; gheader = glo[1]
+    from_hit = T.reach_cp(b, sorted(hits))
+    skipped = []; restricted = []; undominated = []
+    for lo in push_loops:
+        nextc, header, some_bb, none_bb, blocks = lo
+        only_recovery = header not in from_hit and b.dominates(gheader, header)
+        if not b.dominates(gheader, header): undominated.append(lo)
+        ps = sx_loop_paths(ctx, rule + '/every-element', 'T-LOOPMUST', b, ParseCase('Some') if only_recovery else SxOracle(), lo)
+        if ps is None: return
+        done = [p for p in ps if p.end == 'stop']
+        if not done or any(not sx_elems(p) for p in done): skipped.append(lo)
+        si = ctx.S.slice_operand(b, nextc.args[0])
+        if not si.has_field(MPS, table) or any(x.item in RESTRICTING and 'Iterator' in (x.trait or '') for x in si.call_objs): restricted.append(lo)
+    ctx.check(not skipped and not undominated, rule + '/every-element', 'T-LOOPMUST', b.name,
+              'an element can be skipped without being built (other than a name that does not parse on the path where all names parse)' if skipped else 'a loop building the elements is not preceded by the `all names parse` scan',
+              b.site((skipped or undominated or push_loops)[0][0].bb))
+    ctx.check(not restricted, rule + '/all-elements', 'T-LOOPMUST', b.name, 'the loop does not run over all of Mps.%s' % table, b.site((restricted or push_loops)[0][0].bb))
+    # ---- general side: the paths through the early exit of the scan (some name does not parse)
+    gen = []
+    ps = sx_paths(ctx, rule + '/ids-by-order', 'T-CARRY', b, ParseCase('None', set(glo[4])))       # the scan meets a name that does not parse
+    if ps is None: return
+    for p in ps:
+        if p.end in ('return', 'cut', 'stop') and any(h in p.visits for h in hits): gen += sx_elems(p)
+    bad_ids = [a for a in gen if sx_calls(fld(a, 'id'), 'parse_id_tag')]
+    def named(a):
+        nm = sx_strip(fld(a, 'name'))
+        return nm[0] == 'agg' and nm[1].endswith('Option::Some') and any(o.endswith(name_adt) and f == '0' for o, f in sx_fields(nm))
+    unnamed = [a for a in gen if not named(a)]
+    ctx.check(bool(gen) and not bad_ids, rule + '/ids-by-order', 'T-CARRY', b.name, 'when some name does not parse an id is still taken from a parsed name' if gen else 'no element is built when some name does not parse', b.site())
+    ctx.check(bool(gen) and not unnamed, names_rule, 'T-CARRY', b.name, '%s names of the file are not carried (general branch)' % what, b.site())
+    # ---- recovery side: the paths through the exhaustion of the scan (all names parse)
+    rec = []
+    ps = sx_paths(ctx, rule + '/ids-recovered', 'T-CARRY', b, ParseCase('Some'))                    # every name parses
+    if ps is None: return
+    for p in ps:
+        if p.end in ('return', 'cut', 'stop') and glo[3] in p.visits: rec += sx_elems(p)
+    def recovered(a):
+        cs = sx_calls(fld(a, 'id'), 'parse_id_tag')
+        return bool(cs) and all(prefix_const in sx_str(c[3][0], 4) for c in cs)
+    ctx.check(bool(rec) and all(recovered(a) for a in rec), rule + '/ids-recovered', 'T-CARRY', b.name, 'when all names parse the id is not the number parsed after %s' % prefix_const, b.site())
 
 
 def convert_rules(ctx):
@@ -295,11 +1436,10 @@ def convert_rules(ctx):
     if b is None: return
     cover(ctx, R + '.cover', b, MPS)
     aggs = find_aggregates(b, 'v1::Instance')
-    ctx.check(len(aggs) == 1, R + '/instance', 'T-CARRY', b.name, 'expected one v1::Instance aggregate', b.site())
-    for bi, st in aggs:
-        for f, fn in (('description', 'convert_description'), ('decision_variables', 'convert_dvars'), ('objective', 'convert_objective'), ('constraints', 'convert_constraints'), ('sense', 'convert_sense')):
-            s = slice_op(ctx, b, agg_field_operand(st, f))
-            ctx.check(any(c.item == fn for c in s.call_objs), R + '/instance/' + f, 'T-CARRY', b.name, 'Instance.%s does not come from %s' % (f, fn), b.site(bi))
+    ctx.check(len(aggs) >= 1, R + '/instance', 'T-CARRY', b.name, 'no v1::Instance is built', b.site())
+    for f, fn in (('description', 'convert_description'), ('decision_variables', 'convert_dvars'), ('objective', 'convert_objective'), ('constraints', 'convert_constraints'), ('sense', 'convert_sense')):
+        ok = bool(aggs) and all(any(c.item == fn for c in slice_op(ctx, b, agg_field_operand(st, f)).call_objs) for bi, st in aggs)
+        ctx.check(ok, R + '/instance/' + f, 'T-CARRY', b.name, 'Instance.%s does not come from %s' % (f, fn), b.site(aggs[0][0]) if aggs else b.site())
     # sense
     sb = ctx.free_fn(R + '.sense/anchor', 'mps::convert::convert_sense')
     if sb is not None:
@@ -331,182 +1471,51 @@ def convert_rules(ctx):
         ctx.check(rows == {2: ['Integer'], 3: ['Binary'], 4: ['Continuous']}, R + '.kind/mapping', 'T-BRANCHFX', kb.name, 'membership in (integer, binary, real) maps to %s' % rows, kb.site())
     dv = ctx.free_fn(R + '.kind/dvars/anchor', 'mps::convert::convert_dvars')
     if dv is not None:
-        for c in dv.calls:
-            if c.item == 'get_dvar_kind':
-                fs = [mps_table_of(dv, a) or [f for a_, f in ctx.S.slice_operand(dv, a).fields if a_.endswith('parser::Mps')][:1] for a in c.args[1:]]
-                flat = [x if isinstance(x, str) else (x[0] if x else None) for x in fs]
-                ctx.check(flat == ['integer', 'binary', 'real'], R + '.kind/dvars/argument-order', 'T-CARRY', dv.name, 'get_dvar_kind receives tables %s, expected (integer, binary, real)' % flat, dv.site(c.bb))
-            if c.item == 'get_dvar_bound':
-                fs = [mps_table_of(dv, a) or [f for a_, f in ctx.S.slice_operand(dv, a).fields if a_.endswith('parser::Mps')][:1] for a in c.args[1:]]
-                flat = [x if isinstance(x, str) else (x[0] if x else None) for x in fs]
-                ctx.check(flat == ['l', 'u'], R + '.defaults/dvars/argument-order', 'T-CARRY', dv.name, 'get_dvar_bound receives tables %s, expected (l, u)' % flat, dv.site(c.bb))
-        # names carried in the general branch; every variable converted
+        def tables_of(c, start):
+            fs = [mps_table_of(dv, a) or [f for a_, f in ctx.S.slice_operand(dv, a).fields if a_.endswith('parser::Mps')][:1] for a in c.args[start:]]
+            return [x if isinstance(x, str) else (x[0] if x else None) for x in fs]
+        ks = [tables_of(c, 1) for c in dv.calls if c.item == 'get_dvar_kind']
+        ctx.check(bool(ks) and all(k == ['integer', 'binary', 'real'] for k in ks), R + '.kind/dvars/argument-order', 'T-CARRY', dv.name, 'get_dvar_kind receives tables %s, expected (integer, binary, real)' % ks, dv.site())
+        bs = [tables_of(c, 1) for c in dv.calls if c.item == 'get_dvar_bound']
+        ctx.check(bool(bs) and all(k == ['l', 'u'] for k in bs), R + '.defaults/dvars/argument-order', 'T-CARRY', dv.name, 'get_dvar_bound receives tables %s, expected (l, u)' % bs, dv.site())
         aggs = find_aggregates(dv, 'v1::DecisionVariable')
-        named = 0
-        for bi, st in aggs:
-            ex = T.expr(dv, agg_field_operand(st, 'name'))
-            if ex[0] == 'agg' and ex[1].endswith('Option::Some'): named += 1
-            bs = T.expr(dv, agg_field_operand(st, 'bound'))
-            ctx.check(bs[0] == 'agg' and bs[1].endswith('Option::Some') and T.expr_has_call(bs, 'get_dvar_bound'), R + '.defaults/dvars/bound-set', 'T-CARRY', dv.name, 'variable bound is not Some(get_dvar_bound(..))', dv.site(bi))
-        total_recovery(ctx, R + '.vars', dv, 'VAR_PREFIX', lambda c: c.item == 'push' and 'v1::DecisionVariable' in c.name, 'dvars.push')
-        ctx.check(len(aggs) == 2 and named >= 1, 'C17.names/variables', 'T-CARRY', dv.name, 'variable names of the file are not carried (general branch)', dv.site())
+        def bound_set(st):
+            bs_ = T.expr(dv, agg_field_operand(st, 'bound'))
+            return bs_[0] == 'agg' and bs_[1].endswith('Option::Some') and T.expr_has_call(bs_, 'get_dvar_bound')
+        ctx.check(bool(aggs) and all(bound_set(st) for bi, st in aggs), R + '.defaults/dvars/bound-set', 'T-CARRY', dv.name, 'variable bound is not Some(get_dvar_bound(..))', dv.site())
+        recovery_rules(ctx, R + '.vars', 'C17.names/variables', dv, 'VAR_PREFIX', 'vars', 'v1::DecisionVariable', 'parser::ColumnName', 'variable')
     # bound defaults
     bb = ctx.free_fn(R + '.defaults/anchor', 'mps::convert::get_dvar_bound')
     if bb is not None:
         bound_default_rules(ctx, R + '.defaults', bb)
     # objective
     ob = ctx.free_fn(R + '.sign/objective/anchor', 'mps::convert::convert_objective')
-    if ob is not None:
-        gets = [c for c in ob.calls if c.item == 'get' and 'HashMap' in c.name and mps_table_of(ob, c.args[0]) == 'b']
-        okk = len(gets) == 1 and mps_table_of(ob, gets[0].args[1]) == 'objective_name'
-        ctx.check(okk, R + '.sign/objective/constant-of-objective-row', 'T-CARRY', ob.name, 'the objective constant is not looked up under the file\'s objective row name', ob.site())
-        negs = [(bi, st) for bi, st in ob.stmts() if st['rv']['k'] == 'un' and st['rv']['op'] == 'Neg']
-        ctx.check(len(negs) == 1, R + '.sign/objective/negated', 'T-BRANCHFX', ob.name, 'objective constant is not negated exactly once (RHS of the objective row is -constant)', ob.site())
-        ts = [c for c in ob.calls if c.item == 'convert_terms']
-        ctx.check(len(ts) == 1 and mps_table_of(ob, ts[0].args[0]) == 'c', R + '.sign/objective/terms-from-c', 'T-CARRY', ob.name, 'objective terms do not come from c', ob.site())
+    if ob is not None: objective_rules(ctx, R, ob)
     tb = ctx.free_fn(R + '.terms/anchor', 'mps::convert::convert_terms')
     if tb is not None:
-        cls = [x for x in ctx.F.closures_of(tb)]
         okk = False
-        for cb in cls:
+        for cb in [tb] + list(ctx.F.closures_of(tb)):
             for bi, st in find_aggregates(cb, 'v1::linear::Term'):
                 cx = T.expr(cb, agg_field_operand(st, 'coefficient'))
                 okk = not any(x[0] in ('un', 'bin') for x in T.expr_walk(cx)) and T.expr_has_call(T.expr(cb, agg_field_operand(st, 'id')), 'index')
         ctx.check(okk, R + '.terms/unchanged', 'T-CARRY', tb.name, 'terms are not (id of the column, coefficient unchanged)', tb.site())
     # constraint normalisation
     ib = ctx.free_fn(R + '.sign/rows/anchor', 'mps::convert::convert_inequality')
-    if ib is not None:
-        rows = {}
-        tests = []
-        for c in ib.calls:
-            if c.item == 'contains' and 'HashSet' in c.name:
-                p = T.access_path(ib, c.args[0])[1]
-                for g in T.guards_from_call(ib, c): tests.append((p, c, g))
-        stops = {g.true_bb for p, c, g in tests}
-        join = None
-        for p, c, g in tests:
-            reg = T.reach_cp(ib, [g.true_bb]) - T.reach_cp(ib, [g.false_bb])
-            negb = any(st['rv']['k'] == 'un' and st['rv']['op'] == 'Neg' and ib.locals[st['dst']['l']] == 'f64' for bi, st in ib.stmts() if bi in reg)
-            negt = False
-            for bi_, st_, cl in ib.closures_created():
-                if bi_ in reg:
-                    cb = ctx.F.bodies.get(cl)
-                    if cb is not None:
-                        for x in cb.calls:
-                            if T.ASSIGN_CALL.match(x.name) and 'Mul' in x.name and any(a['k'] == 'const' and a['v'] == '-1f64' for a in x.args): negt = True
-                        for b2, s2 in cb.stmts():
-                            if s2['rv']['k'] == 'bin' and s2['rv']['op'] == 'Mul' and any(o['k'] == 'const' and o['v'] == '-1f64' for o in s2['rv']['ops']): negt = True
-            eqc = sorted({re.search(r'Equality::(\w+)', o['v']).group(1) for bi, st in ib.stmts() if bi in reg for o in st['rv'].get('ops', []) if o['k'] == 'const' and 'Equality::' in o['v']})
-            rows[p] = dict(neg_constant=negb, neg_terms=negt, equality=eqc)
-        # parameters: 1 terms, 2 b, 3 name, 4 eq, 5 ge, 6 le
-        want = {4: dict(neg_constant=True, neg_terms=False, equality=['EqualToZero']), 6: dict(neg_constant=True, neg_terms=False, equality=['LessThanOrEqualToZero']),
-                5: dict(neg_constant=False, neg_terms=True, equality=['LessThanOrEqualToZero'])}
-        ctx.check(rows == want, R + '.sign/rows/table', 'T-BRANCHFX', ib.name, 'row normalisation is %s; expected eq/le: -b, terms kept; ge: terms*-1, b kept' % rows, ib.site(), table=str(rows))
+    if ib is not None: sign_rules(ctx, R, ib)
     cb_ = ctx.free_fn(R + '.rows/anchor', 'mps::convert::convert_constraints')
     if cb_ is not None:
-        for c in cb_.calls:
-            if c.item == 'convert_inequality':
-                fs = [mps_table_of(cb_, a) or ([f for a_, f in ctx.S.slice_operand(cb_, a).fields if a_.endswith('parser::Mps')][:1] or [None])[0] for a in c.args[3:]]
-                ctx.check(fs == ['eq', 'ge', 'le'], R + '.sign/rows/argument-order', 'T-CARRY', cb_.name, 'convert_inequality receives tables %s, expected (eq, ge, le)' % fs, cb_.site(c.bb))
-                bx = ctx.S.slice_operand(cb_, c.args[1])
-                ctx.check(bx.has_field(MPS, 'b'), R + '.sign/rows/rhs-from-b', 'T-CARRY', cb_.name, 'right-hand side does not come from b', cb_.site(c.bb))
-        aggs = find_aggregates(cb_, 'v1::Constraint')
-        named = sum(1 for bi, st in aggs if T.expr(cb_, agg_field_operand(st, 'name'))[0] == 'agg' and T.expr(cb_, agg_field_operand(st, 'name'))[1].endswith('Option::Some'))
-        ctx.check(len(aggs) == 2 and named >= 1, 'C17.names/constraints', 'T-CARRY', cb_.name, 'constraint names of the file are not carried (general branch)', cb_.site())
-        total_recovery(ctx, R + '.rows', cb_, 'CONSTR_PREFIX', lambda c: c.item == 'push' and 'v1::Constraint' in c.name, 'constraints.push')
-
-
-def total_recovery(ctx, rule, b, prefix_const, push_pred, what):
-    """every row / column yields an element: the general loop is unrestricted; the id-recovery loop may
-    filter with parse_id_tag only under the guard `!any(parse_id_tag(..).is_none())` with the same prefix"""
-    def closure_calls(operand):
-        out = []
-        for cn in ctx.S.slice_operand(b, operand).closures:
-            cb = ctx.F.bodies.get(cn)
-            if cb is not None and cb.parent == b.name: out += [(cb, c) for c in cb.calls]
-        return out
-    anys = [c for c in b.calls if c.item == 'any' and 'Iterator' in (c.trait or '')]
-    guard = None
-    for c in anys:
-        cc = closure_calls(c.args[1])
-        if any(x.item == 'parse_id_tag' for cb, x in cc) and any(x.item == 'is_none' for cb, x in cc):
-            pref = {a['v'] for cb, x in cc if x.item == 'parse_id_tag' for a in x.args if a['k'] == 'const'} | {T.expr_str(T.expr(cb, x.args[0]), 4) for cb, x in cc if x.item == 'parse_id_tag'}
-            for g in T.guards_from_call(b, c): guard = (c, g, pref)
-    ctx.check(guard is not None, rule + '/recovery-guard', 'T-GUARD', b.name, 'id recovery is not guarded by `every name parses as <prefix><number>`', b.site())
-    for lo in T.for_loops(b):
-        pushes = [c for c in b.calls if c.bb in lo[4] and push_pred(c)]
-        if not pushes: continue
-        ctx.check(T.must_pass(b, lo[2], {lo[1]}, {c.bb for c in pushes}), rule + '/every-element', 'T-LOOPMUST', b.name, 'an element can be skipped without `%s`' % what, b.site(lo[0].bb))
-        si = ctx.S.slice_operand(b, lo[0].args[0])
-        restr = [x for x in si.call_objs if x.item in RESTRICTING and 'Iterator' in (x.trait or '')]
-        if not restr:
-            ctx.ok(rule + '/all-elements', 'T-LOOPMUST', b.site(lo[0].bb)); continue
-        ok = False
-        if guard is not None and all(x.item == 'filter_map' for x in restr):
-            c, g, pref = guard
-            fr = T.reach_cp(b, [g.false_bb]) - T.reach_cp(b, [g.true_bb])
-            cc = [(cb, x) for r_ in restr for cb, x in closure_calls(r_.args[1])]
-            pref2 = {T.expr_str(T.expr(cb, x.args[0]), 4) for cb, x in cc if x.item == 'parse_id_tag'}
-            ok = lo[1] in fr and bool(pref2) and pref2 <= pref
-        ctx.check(ok, rule + '/all-elements', 'T-LOOPMUST', b.name, 'the loop drops elements (%s) without the matching `all names parse` guard' % sorted({x.item for x in restr}), b.site(lo[0].bb))
-
-
-def bound_default_rules(ctx, rule, bb):
-    """(None,None) => [0,+inf); (l,None) => [l,+inf); (None,u) => (-inf,u] if u <= 0 (negative) else [0,u]; (l,u) => [l,u]"""
-    gets = [c for c in bb.calls if c.item == 'get' and 'HashMap' in c.name]
-    pl = {T.access_path(bb, c.args[0])[1]: c for c in gets}     # param 2 = l, 3 = u
-    ctx.check(set(pl) == {2, 3}, rule + '/lookups', 'T-CARRY', bb.name, 'expected one lookup in l and one in u', bb.site())
-    if set(pl) != {2, 3}: return
-    from . import pe
-    def region(asg):
-        seen = set(); work = [pl[3].target if pl[3].bb > pl[2].bb else pl[2].target]
-        probes = [pl[2], pl[3]]
-        while work:
-            bi = work.pop()
-            if bi in seen: continue
-            seen.add(bi)
-            t = bb.blocks[bi]['term']; succs = bb.succ(bi)
-            if t['k'] == 'switch' and t['d']['k'] != 'const':
-                for k2, b2, d in bb.defs_of(t['d']['pl']['l']):
-                    if k2 == 'stmt' and d['rv']['k'] == 'discr':
-                        ex = T.strip_wrappers(T.expr(bb, {'k': 'copy', 'pl': d['rv']['pl']}, depth=8))
-                        if ex[0] == 'call' and ex[1] == 'get' and len(ex) > 4:
-                            for i, p in enumerate(probes):
-                                if p.bb == ex[4]:
-                                    m = {v: tg for v, tg in t['ts']}
-                                    succs = [m.get(asg[i], t['else'])]
-            for s in succs:
-                if not bb.blocks[s]['cleanup']: work.append(s)
-        return seen
-    def pairs_in(reg):
-        out = []
-        for bi, st in bb.stmts():
-            if bi in reg and st['rv']['k'] == 'agg' and st['rv']['adt'] == 'tuple' and len(st['rv']['ops']) == 2:
-                def d(o):
-                    ex = T.strip_wrappers(T.expr(bb, o))
-                    if ex[0] == 'const': return '-inf' if 'NEG_INFINITY' in ex[1] else ('+inf' if 'INFINITY' in ex[1] else ex[1])
-                    g = [x for x in T.expr_walk(ex) if x[0] == 'call' and x[1] == 'get' and len(x) > 4]
-                    if g: return 'l' if g[0][4] == pl[2].bb else 'u'
-                    return T.expr_str(ex, 3)
-                out.append((d(st['rv']['ops'][0]), d(st['rv']['ops'][1])))
-        return sorted(set(out))
-    table = {''.join('S' if a else 'N' for a in asg): pairs_in(region(asg) - set().union(*[region(o) for o in [(0, 0), (0, 1), (1, 0), (1, 1)] if o != asg])) for asg in [(1, 1), (1, 0), (0, 1), (0, 0)]}
-    want = {'SS': [('l', 'u')], 'SN': [('l', '+inf')], 'NS': [('-inf', 'u'), ('0f64', 'u')], 'NN': [('0f64', '+inf')]}
-    ctx.check(table == want, rule + '/table', 'T-BRANCHFX', bb.name, 'bound defaults are %s; expected %s' % (table, want), bb.site(), table=str(table))
-    # the (None, Some(u)) split is a comparison of u with 0 whose "negative" side opens the lower bound
-    okc = False
-    for bi, st in float_cmp_sites(bb, ('Le', 'Lt', 'Ge', 'Gt')):
-        if any(o['k'] == 'const' and o['v'] == '0f64' for o in st['rv']['ops']):
-            op = st['rv']['op']; const_right = st['rv']['ops'][1]['k'] == 'const'
-            neg_when_true = (op in ('Le', 'Lt')) == const_right
-            for g in T.guards_from_local(bb, st['dst']['l'], bi):
-                side = g.true_bb if neg_when_true else g.false_bb; other = g.false_bb if neg_when_true else g.true_bb
-                reg = bb.reach([side]) - bb.reach([other])
-                okc = ('-inf', 'u') in pairs_in(reg)
-    ctx.check(okc, rule + '/negative-upper-opens-lower', 'T-BRANCHFX', bb.name, 'a non-positive upper bound without lower bound does not open the lower bound', bb.site())
+        cis = [c for c in cb_.calls if c.item == 'convert_inequality']
+        def tabs(c): return [mps_table_of(cb_, a) or ([f for a_, f in ctx.S.slice_operand(cb_, a).fields if a_.endswith('parser::Mps')][:1] or [None])[0] for a in c.args[3:]]
+        ctx.check(bool(cis) and all(tabs(c) == ['eq', 'ge', 'le'] for c in cis), R + '.sign/rows/argument-order', 'T-CARRY', cb_.name, 'convert_inequality receives tables %s, expected (eq, ge, le)' % [tabs(c) for c in cis], cb_.site())
+        ctx.check(bool(cis) and all(ctx.S.slice_operand(cb_, c.args[1]).has_field(MPS, 'b') for c in cis), R + '.sign/rows/rhs-from-b', 'T-CARRY', cb_.name, 'right-hand side does not come from b', cb_.site())
+        recovery_rules(ctx, R + '.rows', 'C17.names/constraints', cb_, 'CONSTR_PREFIX', 'a', 'v1::Constraint', 'parser::RowName', 'constraint')
 
 
 def check(ctx):
     parser_rules(ctx); convert_rules(ctx)
-    ctx.floor('C17.ranges', 7); ctx.floor('C17.keywords', 40); ctx.floor('C17.bounds', 19); ctx.floor('C17.rows', 4); ctx.floor('C17.convert', 6); ctx.floor('C17.convert.cover', 15); ctx.floor('C17.names', 2)
-    ctx.floor('C17.convert.sign', 8); ctx.floor('C17.convert.defaults', 7); ctx.floor('C17.convert.kind', 3); ctx.floor('C17.convert.rows', 5); ctx.floor('C17.convert.vars', 5)
+    # decided instances per family on the unchanged tree (instances are per clause, not per loop / call site, so that the
+    # count does not depend on how the code is laid out)
+    for fam, n in {'C17.bounds': 19, 'C17.columns': 2, 'C17.convert': 6, 'C17.convert.cover': 15, 'C17.convert.defaults': 5, 'C17.convert.kind': 2,
+                   'C17.convert.rows': 5, 'C17.convert.sense': 1, 'C17.convert.sign': 6, 'C17.convert.terms': 1, 'C17.convert.vars': 5, 'C17.defaults': 1,
+                   'C17.keywords': 39, 'C17.names': 2, 'C17.ranges': 7, 'C17.rhs': 3, 'C17.rows': 4}.items():
+        ctx.floor(fam, n)
